@@ -729,6 +729,757 @@ theorem div_tf_val_3u2 {x : TwoFloat} {c : F64} (hx : x.Valid) (hwx : x.WF) (hc 
 
 end F64
 
+/-! ## 2b. accuracy of `TwoFloat / TwoFloat` on the whole of `DivRange` (absolute terms kept) -/
+
+namespace F64
+open TwoFloat
+
+/-- `div_acc_int` without the lower bounds on the numerator and the quotient: the absolute terms (half a unit of
+the second quotient digit, two units of the product) are kept -/
+theorem div_acc_int_abs {A Al B q1 q2 N1 L1 N2 L2 P1 P1h P1l R1 R1h R1l U : Int} (hU : 0 < U)
+    (hAl : 2 ^ 53 * |Al| ≤ |A|)
+    (hN1 : N1 = q1 * B) (hN2 : N2 = q2 * B)
+    (hq1 : 2 ^ 53 * |q1 * B - A * U| ≤ 2 ^ 52 * |B| + |A * U|)
+    (hL1 : 2 ^ 53 * |L1| ≤ |N1|)
+    (hP1 : 2 ^ 159 * |P1 * U - (N1 + L1)| ≤ (3 * 2 ^ 53 + 1) * |N1| + 2 ^ 160 * U)
+    (hP1s : P1 = P1h + P1l) (hP1l : 2 ^ 53 * |P1l| ≤ |P1h|)
+    (hR1 : 2 ^ 106 * |R1 - (A + Al - P1)| ≤ 3 * |A - P1h| + (2 ^ 53 + 4) * |Al - P1l|)
+    (hR1s : R1 = R1h + R1l) (hR1l : 2 ^ 53 * |R1l| ≤ |R1h|)
+    (hq2 : 2 ^ 53 * |q2 * B - R1h * U| ≤ 2 ^ 52 * |B| + |R1h * U|)
+    (hL2 : 2 ^ 53 * |L2| ≤ |N2|) :
+    2 ^ 106 * |(A + Al) * U - (N1 + L1 + (N2 + L2))| ≤ 15 * |(A + Al) * U| + 2 ^ 106 * |B| + 2 ^ 108 * U := by
+  have hAl' : 2 ^ 53 * |Al * U| ≤ |A * U| := by
+    have := mul_le_mul_of_nonneg_right hAl hU.le
+    rw [abs_mul_pos_right _ hU, abs_mul_pos_right _ hU]; linarith
+  have hP1l' : 2 ^ 53 * |P1l * U| ≤ |P1h * U| := by
+    have := mul_le_mul_of_nonneg_right hP1l hU.le
+    rw [abs_mul_pos_right _ hU, abs_mul_pos_right _ hU]; linarith
+  have hR1l' : 2 ^ 53 * |R1l * U| ≤ |R1h * U| := by
+    have := mul_le_mul_of_nonneg_right hR1l hU.le
+    rw [abs_mul_pos_right _ hU, abs_mul_pos_right _ hU]; linarith
+  have hR1' : 2 ^ 106 * |R1 * U - (A * U + Al * U - P1 * U)|
+      ≤ 3 * |A * U - P1h * U| + (2 ^ 53 + 4) * |Al * U - P1l * U| := by
+    have := mul_le_mul_of_nonneg_right hR1 hU.le
+    have e1 : R1 * U - (A * U + Al * U - P1 * U) = (R1 - (A + Al - P1)) * U := by ring
+    have e2 : A * U - P1h * U = (A - P1h) * U := by ring
+    have e3 : Al * U - P1l * U = (Al - P1l) * U := by ring
+    rw [e1, e2, e3, abs_mul_pos_right _ hU, abs_mul_pos_right _ hU, abs_mul_pos_right _ hU]; linarith
+  -- triangle inequalities
+  have tG : |(A + Al) * U - (N1 + L1 + (N2 + L2))|
+      ≤ |q2 * B - R1h * U| + |R1l * U| + |L2| + |P1 * U - (N1 + L1)|
+        + |R1 * U - (A * U + Al * U - P1 * U)| := by
+    have e : (A + Al) * U - (N1 + L1 + (N2 + L2))
+        = -(q2 * B - R1h * U) + R1l * U + -L2 + (P1 * U - (N1 + L1))
+          + -(R1 * U - (A * U + Al * U - P1 * U)) := by
+      rw [hN2, hR1s]; ring
+    rw [e]
+    refine le_trans (abs_add_le _ _) ?_
+    rw [abs_neg]
+    refine add_le_add_left (le_trans (abs_add_le _ _) ?_) _
+    refine add_le_add_left (le_trans (abs_add_le _ _) ?_) _
+    rw [abs_neg]
+    refine add_le_add_left (le_trans (abs_add_le _ _) ?_) _
+    rw [abs_neg]
+  have tN2 : |N2| ≤ |R1h * U| + |q2 * B - R1h * U| := by
+    rw [hN2]; exact abs_le_add_abs_sub _ _
+  have tR1h : |R1h * U| ≤ |R1 * U| + |R1l * U| := by
+    have e : R1h * U = R1 * U - R1l * U := by rw [hR1s]; ring
+    rw [e]; exact abs_sub_le_add _ _
+  have tR1 := abs_le_add_abs_sub (R1 * U) (A * U + Al * U - P1 * U)
+  have tX : |A * U + Al * U - P1 * U|
+      ≤ |q1 * B - A * U| + |Al * U| + |L1| + |P1 * U - (N1 + L1)| := by
+    have e : A * U + Al * U - P1 * U = -(q1 * B - A * U) + Al * U + -L1 + -(P1 * U - (N1 + L1)) := by
+      rw [hN1]; ring
+    rw [e]
+    refine le_trans (abs_add_le _ _) ?_
+    rw [abs_neg]
+    refine add_le_add_left (le_trans (abs_add_le _ _) ?_) _
+    rw [abs_neg]
+    refine add_le_add_left (le_trans (abs_add_le _ _) ?_) _
+    rw [abs_neg]
+  have tN1 : |N1| ≤ |A * U| + |q1 * B - A * U| := by
+    rw [hN1]; exact abs_le_add_abs_sub _ _
+  have tS : |A * U - P1h * U| ≤ |A * U + Al * U - P1 * U| + |Al * U| + |P1l * U| := by
+    have e : A * U - P1h * U = (A * U + Al * U - P1 * U) + -(Al * U) + P1l * U := by rw [hP1s]; ring
+    rw [e]
+    refine le_trans (abs_add_le _ _) ?_
+    refine add_le_add_left (le_trans (abs_add_le _ _) ?_) _
+    rw [abs_neg]
+  have tP1h : |P1h * U| ≤ |P1 * U| + |P1l * U| := by
+    have e : P1h * U = P1 * U - P1l * U := by rw [hP1s]; ring
+    rw [e]; exact abs_sub_le_add _ _
+  have tP1 : |P1 * U| ≤ |N1| + |L1| + |P1 * U - (N1 + L1)| := by
+    have := abs_le_add_abs_sub (P1 * U) (N1 + L1)
+    have := abs_add_le N1 L1
+    omega
+  have tT := abs_sub_le_add (Al * U) (P1l * U)
+  have tD : |A * U| ≤ |(A + Al) * U| + |Al * U| := by
+    have e : A * U = (A + Al) * U - Al * U := by ring
+    conv_lhs => rw [e]
+    exact abs_sub_le_add _ _
+  have n1 := abs_nonneg B
+  have n2 := abs_nonneg (Al * U)
+  have n3 := abs_nonneg (P1l * U)
+  have n4 := abs_nonneg (R1l * U)
+  have n5 := abs_nonneg L1
+  have n6 := abs_nonneg L2
+  have n7 := abs_nonneg (q1 * B - A * U)
+  have n8 := abs_nonneg (q2 * B - R1h * U)
+  have n9 := abs_nonneg (P1 * U - (N1 + L1))
+  have n10 := abs_nonneg (R1 * U - (A * U + Al * U - P1 * U))
+  generalize |(A + Al) * U - (N1 + L1 + (N2 + L2))| = g at *
+  generalize |(A + Al) * U| = x at *
+  generalize |q2 * B - R1h * U| = d2 at *
+  generalize |q1 * B - A * U| = d1 at *
+  generalize |R1l * U| = r1l at *
+  generalize |R1h * U| = r1h at *
+  generalize |R1 * U| = r1 at *
+  generalize |L1| = l1 at *
+  generalize |L2| = l2 at *
+  generalize |N1| = n1' at *
+  generalize |N2| = n2' at *
+  generalize |P1 * U - (N1 + L1)| = e1 at *
+  generalize |R1 * U - (A * U + Al * U - P1 * U)| = e2 at *
+  generalize |A * U + Al * U - P1 * U| = xp at *
+  generalize |A * U - P1h * U| = s at *
+  generalize |Al * U - P1l * U| = t at *
+  generalize |Al * U| = al at *
+  generalize |P1l * U| = p1l at *
+  generalize |P1h * U| = p1h at *
+  generalize |P1 * U| = p1 at *
+  generalize |A * U| = a at *
+  generalize |B| = b at *
+  linarith
+
+/-- accuracy of `q1 + q2` for both long divisions (`sub p = r − p` resp. `f − p` as in `step_core`) -/
+theorem div_acc_core_abs {y : TwoFloat} {xh : F64} {xl : Int} (sub : TwoFloat → TwoFloat)
+    (hy : y.Valid) (fx : xh.is_finite = true)
+    (hxl : 2 ^ 53 * |xl| ≤ |xh.toInt|)
+    (hy0 : y.hi.toInt ≠ 0) (hUB : (unit : Int) ≤ 2 ^ 2026 * |y.hi.toInt|)
+    (hBU : |y.hi.toInt| ≤ 2 ^ 2026 * (unit : Int))
+    (A_hi : |xh.toInt| ≤ 2 ^ 2090) (B_hi : |y.hi.toInt| ≤ 2 ^ 2090)
+    (Q_hi : |xh.toInt * (unit : Int)| ≤ 2 ^ 2090 * |y.hi.toInt|)
+    (hsub : ∀ p : TwoFloat, p.Valid → p.WF → |p.hi.toInt| ≤ 2 ^ 2094 →
+      (sub p).Valid ∧ 2 ^ 103 * |(sub p).V - (xh.toInt + xl - p.V)| ≤ |xh.toInt| + |p.hi.toInt| ∧
+      2 ^ 106 * |(sub p).V - (xh.toInt + xl - p.V)|
+        ≤ 3 * |xh.toInt - p.hi.toInt| + (2 ^ 53 + 4) * |xl - p.lo.toInt|) :
+    2 ^ 106 * |(xh.toInt + xl) * (unit : Int)
+        - ((F64.div xh y.hi).toInt +
+            (F64.div (sub (arithmetic.impl_Mul_rf64_for_rTwoFloat.mul y (F64.div xh y.hi))).hi y.hi).toInt) * y.V|
+      ≤ 15 * |(xh.toInt + xl) * (unit : Int)| + 2 ^ 106 * |y.hi.toInt| + 2 ^ 108 * (unit : Int) := by
+  have hUi := unit_pos_int
+  obtain ⟨vq1, pv1, hPt1, rv1, hS1, hRt1⟩ := step_core sub hy fx hy0 hxl A_hi B_hi Q_hi hsub
+  obtain ⟨-, b1'⟩ := next_bounds_int hUi hUB hBU A_hi Q_hi hS1
+  obtain ⟨vq2, -⟩ := div_digit rv1.1 hy.1 hy0 b1'
+  have hq1 := rdI_err_gen (xh.toInt * (unit : Int)) hy0
+  rw [← vq1.2] at hq1
+  have hq2 := rdI_err_gen
+    ((sub (arithmetic.impl_Mul_rf64_for_rTwoFloat.mul y (F64.div xh y.hi))).hi.toInt * (unit : Int)) hy0
+  rw [← vq2.2] at hq2
+  have key := div_acc_int_abs (A := xh.toInt) (Al := xl) (B := y.hi.toInt)
+    (q1 := (F64.div xh y.hi).toInt)
+    (q2 := (F64.div (sub (arithmetic.impl_Mul_rf64_for_rTwoFloat.mul y (F64.div xh y.hi))).hi y.hi).toInt)
+    (N1 := y.hi.toInt * (F64.div xh y.hi).toInt) (L1 := y.lo.toInt * (F64.div xh y.hi).toInt)
+    (N2 := y.hi.toInt *
+      (F64.div (sub (arithmetic.impl_Mul_rf64_for_rTwoFloat.mul y (F64.div xh y.hi))).hi y.hi).toInt)
+    (L2 := y.lo.toInt *
+      (F64.div (sub (arithmetic.impl_Mul_rf64_for_rTwoFloat.mul y (F64.div xh y.hi))).hi y.hi).toInt)
+    (P1 := (arithmetic.impl_Mul_rf64_for_rTwoFloat.mul y (F64.div xh y.hi)).V)
+    (P1h := (arithmetic.impl_Mul_rf64_for_rTwoFloat.mul y (F64.div xh y.hi)).hi.toInt)
+    (P1l := (arithmetic.impl_Mul_rf64_for_rTwoFloat.mul y (F64.div xh y.hi)).lo.toInt)
+    (R1 := (sub (arithmetic.impl_Mul_rf64_for_rTwoFloat.mul y (F64.div xh y.hi))).V)
+    (R1h := (sub (arithmetic.impl_Mul_rf64_for_rTwoFloat.mul y (F64.div xh y.hi))).hi.toInt)
+    (R1l := (sub (arithmetic.impl_Mul_rf64_for_rTwoFloat.mul y (F64.div xh y.hi))).lo.toInt)
+    hUi hxl (mul_comm _ _) (mul_comm _ _) hq1 (lo_mul_le hy.two_mul_abs_lo_le) hPt1 rfl
+    (two_pow_mul_abs_le_of_half_ulp pv1.two_mul_abs_lo_le) hRt1 rfl
+    (two_pow_mul_abs_le_of_half_ulp rv1.two_mul_abs_lo_le) hq2 (lo_mul_le hy.two_mul_abs_lo_le)
+  have e : ((F64.div xh y.hi).toInt +
+        (F64.div (sub (arithmetic.impl_Mul_rf64_for_rTwoFloat.mul y (F64.div xh y.hi))).hi y.hi).toInt) * y.V
+      = y.hi.toInt * (F64.div xh y.hi).toInt + y.lo.toInt * (F64.div xh y.hi).toInt +
+        (y.hi.toInt *
+          (F64.div (sub (arithmetic.impl_Mul_rf64_for_rTwoFloat.mul y (F64.div xh y.hi))).hi y.hi).toInt +
+        y.lo.toInt *
+          (F64.div (sub (arithmetic.impl_Mul_rf64_for_rTwoFloat.mul y (F64.div xh y.hi))).hi y.hi).toInt) := by
+    unfold TwoFloat.V; ring
+  rw [e]; exact key
+
+end F64
+
+namespace TwoFloat
+
+open F64
+
+/-- **accuracy of `TwoFloat / TwoFloat` on the whole of `DivRange`**: relative error `15u²` plus the absolute terms
+`|b.hi|` (a unit of the quotient) and `4·2^-1074·2^1074` (two units of the first partial product), cross-multiplied. -/
+theorem div_tt_acc_abs {a b : TwoFloat} (ha : a.Valid) (hwa : a.WF) (hb : b.Valid)
+    (R : DivRange a.hi.toInt b.hi.toInt) :
+    2 ^ 106 * |a.V * (unit : Int) - (arithmetic.impl_Div_rTwoFloat_for_rTwoFloat.div a b).V * b.V|
+      ≤ 15 * |a.V * (unit : Int)| + 2 ^ 106 * |b.hi.toInt| + 2 ^ 108 * (unit : Int) := by
+  have hV : (arithmetic.impl_Div_rTwoFloat_for_rTwoFloat.div a b).V
+      = (F64.div a.hi b.hi).toInt + (F64.div (divStep a b).hi b.hi).toInt := by
+    rw [(div_tt_isV_of_range ha hwa hb R).V_eq]; exact add_sub_cancel _ _
+  have A_hi := R.A_hi
+  rw [hV]
+  exact div_acc_core_abs (y := b) (xh := a.hi) (xl := a.lo.toInt)
+    (fun p => arithmetic.impl_Sub_rTwoFloat_for_rTwoFloat.sub a p) hb ha.1
+    (two_pow_mul_abs_le_of_half_ulp ha.two_mul_abs_lo_le) R.B_ne R.aux.1 R.aux.2.1 R.A_hi R.B_hi R.Q_hi
+    (fun p hp hwp bp => sub_tt_val ha hp hwa hwp (by omega) bp)
+
+/-- accuracy of the first two quotient digits, without any lower bound on the numerator -/
+theorem div_q12_acc {a b : TwoFloat} (ha : a.Valid) (hwa : a.WF) (hb : b.Valid)
+    (hy0 : b.hi.toInt ≠ 0) (hUB : (unit : Int) ≤ 2 ^ 2026 * |b.hi.toInt|)
+    (hBU : |b.hi.toInt| ≤ 2 ^ 2026 * (unit : Int))
+    (A_hi : |a.hi.toInt| ≤ 2 ^ 2090) (B_hi : |b.hi.toInt| ≤ 2 ^ 2090)
+    (Q_hi : |a.hi.toInt * (unit : Int)| ≤ 2 ^ 2090 * |b.hi.toInt|) :
+    2 ^ 106 * |a.V * (unit : Int)
+        - ((F64.div a.hi b.hi).toInt + (F64.div (divStep a b).hi b.hi).toInt) * b.V|
+      ≤ 15 * |a.V * (unit : Int)| + 2 ^ 106 * |b.hi.toInt| + 2 ^ 108 * (unit : Int) :=
+  div_acc_core_abs (y := b) (xh := a.hi) (xl := a.lo.toInt)
+    (fun p => arithmetic.impl_Sub_rTwoFloat_for_rTwoFloat.sub a p) hb ha.1
+    (two_pow_mul_abs_le_of_half_ulp ha.two_mul_abs_lo_le) hy0 hUB hBU A_hi B_hi Q_hi
+    (fun p hp hwp bp => sub_tt_val ha hp hwa hwp (by omega) bp)
+
+end TwoFloat
+
+/-! ## 2c. `TwoFloat / TwoFloat` returns a normalised pair for every numerator when `|b.hi| ≥ 2^-41` -/
+
+namespace F64
+open TwoFloat
+
+theorem repI_of_abs_lt {z : Int} (h : |z| < 2 ^ 53) : RepI z := by
+  apply rep_of_lt
+  rw [← Int.natCast_natAbs z] at h
+  exact_mod_cast h
+
+/-- `renorm3` on three small integers (everything below `2^53` units): all additions are exact -/
+theorem renorm3_exact {q1 q2 q3 : F64} (f1 : q1.is_finite = true) (f2 : q2.is_finite = true)
+    (f3 : q3.is_finite = true) (w1 : q1.WF) (w2 : q2.WF) (w3 : q3.WF)
+    (h : |q1.toInt| + |q2.toInt| + |q3.toInt| < 2 ^ 53) :
+    (arithmetic.renorm3 q1 q2 q3).IsV (q3.toInt + (q1.toInt + q2.toInt)) 0 := by
+  rw [renorm3_eq']
+  have hm := two_pow_le_maxFin_int (k := 53) (by norm_num)
+  have a0 := abs_nonneg q1.toInt
+  have b0 := abs_nonneg q2.toInt
+  have c0 := abs_nonneg q3.toInt
+  have t1 := abs_add_le q1.toInt q2.toInt
+  have t2 := abs_add_le q3.toInt (q1.toInt + q2.toInt)
+  have hu := f2s_isV_exact (IsVal.of_finite f1) (IsVal.of_finite f2) w1 w2 (repI_of_abs_lt (by omega)) (by omega)
+  have hv := f2s_isV_exact (IsVal.of_finite f3) hu.1 w3 (fast_two_sum_WF _ _).1 (repI_of_abs_lt (by omega))
+    (by omega)
+  have hw := hu.2.add_exact hv.2 (by rw [add_zero]; exact repI_zero) (by rw [add_zero]; exact abs_zero_le_maxFin)
+  rw [add_zero] at hw
+  have := f2s_isV_exact hv.1 hw (fast_two_sum_WF _ _).1 (add_WF _ _) (by rw [add_zero]; exact repI_of_abs_lt (by omega))
+    (by rw [add_zero]; omega)
+  rwa [add_zero] at this
+
+
+/-- integer core of `renorm3_crude`: the five rounding errors are tiny relative to `q1` -/
+theorem renorm3_crude_int {a b c H S Z L W : Int}
+    (h12 : 2 * |b| ≤ |a|) (h13 : 32 * |c| ≤ |a|)
+    (e1 : 2 ^ 53 * |H - (a + b)| ≤ |a + b|)
+    (e2 : 2 ^ 53 * |S - (c + H)| ≤ |c + H|)
+    (e3 : 2 ^ 53 * |Z - (S - c)| ≤ |S - c|)
+    (e4 : 2 ^ 53 * |L - (H - Z)| ≤ |H - Z|)
+    (e5 : 2 ^ 53 * |W - (a + b - H + L)| ≤ |a + b - H + L|) :
+    |c + H| ≤ 2 * |a| ∧ |S - c| ≤ 3 * |a| ∧ |H - Z| ≤ |a| ∧ |a + b - H + L| ≤ |a| ∧
+    |W| ≤ |S| ∧ |S + W| ≤ 2 * |a| ∧ |H| ≤ 2 * |a| := by
+  have t1 := abs_add_le a b
+  have t2 : |a| ≤ |a + b| + |b| := by
+    have := abs_add_le (a + b) (-b); rwa [abs_neg, add_neg_cancel_right] at this
+  have t3 := abs_le_add_abs_sub H (a + b)
+  have t4 : |a + b| ≤ |H| + |H - (a + b)| := by
+    have := abs_le_add_abs_sub (a + b) H; rwa [abs_sub_comm] at this
+  have t5 := abs_add_le c H
+  have t6 : |H| ≤ |c + H| + |c| := by
+    have := abs_add_le (c + H) (-c); rw [abs_neg] at this
+    have e : c + H + -c = H := by ring
+    rwa [e] at this
+  have t7 := abs_le_add_abs_sub S (c + H)
+  have t8 : |c + H| ≤ |S| + |S - (c + H)| := by
+    have := abs_le_add_abs_sub (c + H) S; rwa [abs_sub_comm] at this
+  have t9 : |S - c| ≤ |S| + |c| := abs_sub_le_add S c
+  have t10 : |H - Z| ≤ |S - (c + H)| + |Z - (S - c)| := by
+    have e : H - Z = -(S - (c + H)) + -(Z - (S - c)) := by ring
+    rw [e]; have := abs_add_le (-(S - (c + H))) (-(Z - (S - c))); rwa [abs_neg, abs_neg] at this
+  have t11 := abs_le_add_abs_sub L (H - Z)
+  have t12 : |a + b - H + L| ≤ |H - (a + b)| + |L| := by
+    have e : a + b - H + L = -(H - (a + b)) + L := by ring
+    rw [e]; have := abs_add_le (-(H - (a + b))) L; rwa [abs_neg] at this
+  have t13 := abs_le_add_abs_sub W (a + b - H + L)
+  have t14 := abs_add_le S W
+  have n1 := abs_nonneg a
+  have n2 := abs_nonneg b
+  have n3 := abs_nonneg c
+  generalize |a| = xa at *
+  generalize |b| = xb at *
+  generalize |c| = xc at *
+  generalize |a + b| = xab at *
+  generalize |H| = xH at *
+  generalize |H - (a + b)| = d1 at *
+  generalize |c + H| = xcH at *
+  generalize |S| = xS at *
+  generalize |S - (c + H)| = d2 at *
+  generalize |S - c| = xSc at *
+  generalize |Z - (S - c)| = d3 at *
+  generalize |H - Z| = xHZ at *
+  generalize |L| = xL at *
+  generalize |L - (H - Z)| = d4 at *
+  generalize |a + b - H + L| = xw at *
+  generalize |W| = xW at *
+  generalize |W - (a + b - H + L)| = d5 at *
+  generalize |S + W| = xSW at *
+  refine ⟨?_, ?_, ?_, ?_, ?_, ?_, ?_⟩ <;> omega
+
+
+/-- the value of `renorm3_crude` is within `2^-48 |q1|` of `q1 + q2 + q3` (integer core) -/
+theorem renorm3_crude_close_int {a b c H S Z L W : Int}
+    (h12 : 2 * |b| ≤ |a|) (h13 : 32 * |c| ≤ |a|)
+    (e1 : 2 ^ 53 * |H - (a + b)| ≤ |a + b|)
+    (e2 : 2 ^ 53 * |S - (c + H)| ≤ |c + H|)
+    (e3 : 2 ^ 53 * |Z - (S - c)| ≤ |S - c|)
+    (e4 : 2 ^ 53 * |L - (H - Z)| ≤ |H - Z|)
+    (e5 : 2 ^ 53 * |W - (a + b - H + L)| ≤ |a + b - H + L|) :
+    2 ^ 48 * |S + W - (a + b + c)| ≤ |a| := by
+  obtain ⟨g1, g2, g3, g4, -, -, -⟩ := renorm3_crude_int h12 h13 e1 e2 e3 e4 e5
+  have e : S + W - (a + b + c) = -(Z - (S - c)) + (L - (H - Z)) + (W - (a + b - H + L)) := by ring
+  rw [e]
+  have t1 := abs_add_le (-(Z - (S - c)) + (L - (H - Z))) (W - (a + b - H + L))
+  have t2 := abs_add_le (-(Z - (S - c))) (L - (H - Z))
+  rw [abs_neg] at t2
+  have n0 := abs_nonneg a
+  generalize |Z - (S - c)| = d3 at *
+  generalize |L - (H - Z)| = d4 at *
+  generalize |W - (a + b - H + L)| = d5 at *
+  generalize |S - c| = x1 at *
+  generalize |H - Z| = x2 at *
+  generalize |a + b - H + L| = x3 at *
+  generalize |a| = xa at *
+  omega
+
+/-- a quotient within half a unit of a small integer rounds to that integer -/
+theorem rqI_eq_of_near {p k : Int} {U : Nat} (hU : 0 < U) (hk : |k| ≤ 2 ^ 52)
+    (h : 2 * |p - k * (U : Int)| < (U : Int)) : rqI p U = k := by
+  have hUi : (0 : Int) < (U : Int) := Int.natCast_pos.2 hU
+  have he := abs_sub_rqI_mul p hU
+  have hp : |p| < 2 ^ 53 * (U : Int) := by
+    have t := abs_le_add_abs_sub p (k * (U : Int))
+    rw [abs_mul, abs_of_pos hUi] at t
+    have : |k| * (U : Int) ≤ 2 ^ 52 * (U : Int) := mul_le_mul_of_nonneg_right hk hUi.le
+    linarith
+  have hlog : Nat.log2 (p.natAbs / U) - 52 = 0 := by
+    apply log2_sub_eq_zero
+    rw [Nat.div_lt_iff_lt_mul hU]
+    rw [← Int.natCast_natAbs p] at hp
+    exact_mod_cast hp
+  rw [hlog, pow_zero, mul_one] at he
+  -- |r - k| * U < U
+  have t : |(rqI p U - k) * (U : Int)| ≤ |p + -(rqI p U) * (U : Int)| + |p - k * (U : Int)| := by
+    have e : (rqI p U - k) * (U : Int) = -(p + -(rqI p U) * (U : Int)) + (p - k * (U : Int)) := by ring
+    rw [e]
+    have := abs_add_le (-(p + -(rqI p U) * (U : Int))) (p - k * (U : Int))
+    rwa [abs_neg] at this
+  rw [abs_mul, abs_of_pos hUi] at t
+  have h1 : |rqI p U - k| * (U : Int) < 1 * (U : Int) := by linarith
+  have h2 : |rqI p U - k| < 1 := lt_of_mul_lt_mul_right h1 hUi.le
+  have h3 : |rqI p U - k| = 0 := by have := abs_nonneg (rqI p U - k); omega
+  have := abs_eq_zero.1 h3
+  omega
+
+
+/-- **`TwoFloat * f64` when the product is within half a unit of a small integer `A`** (deep in the subnormal range):
+the result is exactly `(A, 0)` -/
+theorem mul_tf_tiny {m : TwoFloat} {q : F64} {A : Int} (mv : m.Valid) (hq : q.is_finite = true)
+    (hA : |A| ≤ 2 ^ 52)
+    (hX : 2 * |m.hi.toInt * q.toInt - A * (unit : Int)| < (unit : Int))
+    (hL : 2 * |m.lo.toInt * q.toInt| < (unit : Int)) :
+    (arithmetic.impl_Mul_rf64_for_rTwoFloat.mul m q).IsV A 0 := by
+  have hm52 := two_pow_le_maxFin_int (k := 52) (by norm_num)
+  have hAm : A.natAbs ≤ maxFin := natAbs_le_of_abs_le (by omega)
+  rw [mul_tf_eq, new_mul_eq]
+  -- ch
+  have e1 : rqI (m.hi.toInt * q.toInt) unit = A := rqI_eq_of_near unit_pos hA hX
+  have hch : IsVal (F64.mul m.hi q) A := by
+    have := mul_spec mv.1 hq (by rw [← natAbs_rqI, e1]; exact hAm)
+    rwa [e1] at this
+  -- cl1
+  have e2 : rqI (m.hi.toInt * q.toInt + (F64.neg (F64.mul m.hi q)).toInt * (unit : Int)) unit = 0 := by
+    rw [toInt_neg, hch.2]
+    apply rqI_eq_of_near unit_pos (by simp)
+    rw [zero_mul, sub_zero]
+    have e : m.hi.toInt * q.toInt + -A * (unit : Int) = m.hi.toInt * q.toInt - A * (unit : Int) := by ring
+    rw [e]; exact hX
+  have hcl1 : IsVal (F64.fma m.hi q (F64.neg (F64.mul m.hi q))) 0 := by
+    have := fma_spec mv.1 hq (by rw [is_finite_neg]; exact hch.1) (by rw [← natAbs_rqI, e2]; simp)
+    rwa [e2] at this
+  -- cl3
+  have e3 : rqI (m.lo.toInt * q.toInt + (F64.fma m.hi q (F64.neg (F64.mul m.hi q))).toInt * (unit : Int)) unit
+      = 0 := by
+    rw [hcl1.2]
+    apply rqI_eq_of_near unit_pos (by simp)
+    rw [zero_mul, sub_zero]; simpa using hL
+  have hcl3 : IsVal (F64.fma m.lo q (F64.fma m.hi q (F64.neg (F64.mul m.hi q)))) 0 := by
+    have := fma_spec mv.2.1 hq hcl1.1 (by rw [← natAbs_rqI, e3]; simp)
+    rwa [e3] at this
+  have hrep : RepI A := repI_of_abs_lt (lt_of_le_of_lt hA (by norm_num))
+  have := f2s_isV_exact hch hcl3 (mul_WF _ _) (fma_WF _ _ _) (by rw [add_zero]; exact hrep)
+    (by rw [add_zero]; omega)
+  rwa [add_zero] at this
+
+
+/-- **`renorm3 q1 q2 q3` with `|q2| ≤ |q1|/2`, `|q3| ≤ |q1|/32`** (the third word is NOT negligible): the result is
+the normalised pair of some `v` with `|v| ≤ 2|q1|`.  The middle `fast_two_sum c u.hi` (small word first) is not
+error-free here, but its low word stays far below `u.hi`, so the last `fast_two_sum` is. -/
+theorem renorm3_crude {q1 q2 q3 : F64} (f1 : q1.is_finite = true) (f2 : q2.is_finite = true)
+    (f3 : q3.is_finite = true) (w1 : q1.WF) (w2 : q2.WF)
+    (h12 : 2 * |q2.toInt| ≤ |q1.toInt|) (h13 : 32 * |q3.toInt| ≤ |q1.toInt|)
+    (hov : 4 * |q1.toInt| ≤ (maxFin : Int)) :
+    ∃ v : Int, (arithmetic.renorm3 q1 q2 q3).IsV (rnI v) (v - rnI v) ∧ |v| ≤ 2 * |q1.toInt| ∧
+      2 ^ 48 * |v - (q1.toInt + q2.toInt + q3.toInt)| ≤ |q1.toInt| := by
+  rw [renorm3_eq']
+  have a0 := abs_nonneg q1.toInt
+  have b0 := abs_nonneg q2.toInt
+  have hsum := abs_add_le q1.toInt q2.toInt
+  have hov1 : rn53 (q1.toInt + q2.toInt).natAbs ≤ maxFin := rn53_natAbs_le_maxFin (by omega)
+  obtain ⟨uh, ul⟩ := fast_two_sum_words f1 f2 w1 w2 (by omega) hov1
+  have wu := fast_two_sum_WF q1 q2
+  have v3 := IsVal.of_finite f3
+  have gc := renorm3_crude_close_int (a := q1.toInt) (b := q2.toInt) (c := q3.toInt)
+    (H := rnI (q1.toInt + q2.toInt)) (S := rnI (q3.toInt + rnI (q1.toInt + q2.toInt)))
+    (Z := rnI (rnI (q3.toInt + rnI (q1.toInt + q2.toInt)) - q3.toInt))
+    (L := rnI (rnI (q1.toInt + q2.toInt) - rnI (rnI (q3.toInt + rnI (q1.toInt + q2.toInt)) - q3.toInt)))
+    (W := rnI (q1.toInt + q2.toInt - rnI (q1.toInt + q2.toInt)
+      + rnI (rnI (q1.toInt + q2.toInt) - rnI (rnI (q3.toInt + rnI (q1.toInt + q2.toInt)) - q3.toInt))))
+    h12 h13 (rel_err_rnI _) (rel_err_rnI _) (rel_err_rnI _) (rel_err_rnI _) (rel_err_rnI _)
+  obtain ⟨g1, g2, g3, g4, g5, g6, g7⟩ := renorm3_crude_int (a := q1.toInt) (b := q2.toInt) (c := q3.toInt)
+    (H := rnI (q1.toInt + q2.toInt)) (S := rnI (q3.toInt + rnI (q1.toInt + q2.toInt)))
+    (Z := rnI (rnI (q3.toInt + rnI (q1.toInt + q2.toInt)) - q3.toInt))
+    (L := rnI (rnI (q1.toInt + q2.toInt) - rnI (rnI (q3.toInt + rnI (q1.toInt + q2.toInt)) - q3.toInt)))
+    (W := rnI (q1.toInt + q2.toInt - rnI (q1.toInt + q2.toInt)
+      + rnI (rnI (q1.toInt + q2.toInt) - rnI (rnI (q3.toInt + rnI (q1.toInt + q2.toInt)) - q3.toInt))))
+    h12 h13 (rel_err_rnI _) (rel_err_rnI _) (rel_err_rnI _) (rel_err_rnI _) (rel_err_rnI _)
+  have hs := v3.add uh (by omega)
+  have hz := hs.sub v3 (by omega)
+  have hvl := uh.sub hz (by omega)
+  have hw := ul.add hvl (by omega)
+  have hf := fast_two_sum_words hs.1 hw.1 (add_WF _ _) (add_WF _ _) (by rw [hs.2, hw.2]; exact g5)
+    (by rw [hs.2, hw.2]; exact rn53_natAbs_le_maxFin (by omega))
+  rw [hs.2, hw.2] at hf
+  exact ⟨_, hf, g6, gc⟩
+
+
+/-- crude magnitudes of the second and third quotient digits when the divisor is at least `2^-41`
+(`U ≤ 2^41 |B|`): `|q2|, |q3| ≤ 2^-47 |q1| + 2^45` -/
+theorem digits_crude_int {A B r1 r2 q1 q2 q3 U : Int} (_hU : 0 < U) (hB : B ≠ 0) (hβ : U ≤ 2 ^ 41 * |B|)
+    (hS1 : 2 ^ 48 * |r1 * U| ≤ |A * U| + 2 ^ 50 * |B| + 2 ^ 51 * U)
+    (hS2 : 2 ^ 48 * |r2 * U| ≤ |r1 * U| + 2 ^ 50 * |B| + 2 ^ 51 * U)
+    (hQ1 : 2 ^ 53 * |q1 * B - A * U| ≤ 2 ^ 52 * |B| + |A * U|)
+    (hQ2 : 2 ^ 53 * |q2 * B - r1 * U| ≤ 2 ^ 52 * |B| + |r1 * U|)
+    (hQ3 : 2 ^ 53 * |q3 * B - r2 * U| ≤ 2 ^ 52 * |B| + |r2 * U|) :
+    2 ^ 47 * |q2| ≤ |q1| + 2 ^ 92 ∧ 2 ^ 47 * |q3| ≤ |q1| + 2 ^ 92 ∧ |q1| * |B| ≤ 2 * |A * U| + |B| := by
+  have hBp : 0 < |B| := abs_pos.2 hB
+  have t1 := abs_le_add_abs_sub (A * U) (q1 * B)
+  rw [abs_sub_comm] at t1
+  have t1' := abs_le_add_abs_sub (q1 * B) (A * U)
+  have t2 := abs_le_add_abs_sub (q2 * B) (r1 * U)
+  have t3 := abs_le_add_abs_sub (q3 * B) (r2 * U)
+  have n1 := abs_nonneg (r1 * U)
+  have n2 := abs_nonneg (r2 * U)
+  have n3 := abs_nonneg (A * U)
+  have k2 : 2 ^ 47 * |q2 * B| ≤ |q1 * B| + 2 ^ 92 * |B| := by
+    generalize |q1 * B| = b1 at *
+    generalize |q2 * B| = b2 at *
+    generalize |q3 * B| = b3 at *
+    generalize |q1 * B - A * U| = c1 at *
+    generalize |q2 * B - r1 * U| = c2 at *
+    generalize |q3 * B - r2 * U| = c3 at *
+    generalize |A * U| = a at *
+    generalize |r1 * U| = d1 at *
+    generalize |r2 * U| = d2 at *
+    generalize |B| = b at *
+    omega
+  have k3 : 2 ^ 47 * |q3 * B| ≤ |q1 * B| + 2 ^ 92 * |B| := by
+    generalize |q1 * B| = b1 at *
+    generalize |q2 * B| = b2 at *
+    generalize |q3 * B| = b3 at *
+    generalize |q1 * B - A * U| = c1 at *
+    generalize |q2 * B - r1 * U| = c2 at *
+    generalize |q3 * B - r2 * U| = c3 at *
+    generalize |A * U| = a at *
+    generalize |r1 * U| = d1 at *
+    generalize |r2 * U| = d2 at *
+    generalize |B| = b at *
+    omega
+  have k1 : |q1 * B| ≤ 2 * |A * U| + |B| := by
+    generalize |q1 * B| = b1 at *
+    generalize |q1 * B - A * U| = c1 at *
+    generalize |A * U| = a at *
+    generalize |B| = b at *
+    omega
+  rw [abs_mul] at k1
+  rw [abs_mul, abs_mul] at k2 k3
+  refine ⟨?_, ?_, k1⟩
+  · have : (2 ^ 47 * |q2|) * |B| ≤ (|q1| + 2 ^ 92) * |B| := by linarith
+    exact le_of_mul_le_mul_right this hBp
+  · have : (2 ^ 47 * |q3|) * |B| ≤ (|q1| + 2 ^ 92) * |B| := by linarith
+    exact le_of_mul_le_mul_right this hBp
+
+
+/-- magnitudes of the quotient digits when the numerator is at least `2^9` times the absolute error level
+(`2^9·(|B| + U) ≤ |A·U|`): the first digit dominates -/
+theorem digits_alpha_int {A B r1 r2 q1 q2 q3 U : Int} (_hU : 0 < U) (hB : B ≠ 0)
+    (hα : 2 ^ 9 * (|B| + U) ≤ |A * U|)
+    (hS1 : 2 ^ 48 * |r1 * U| ≤ |A * U| + 2 ^ 50 * |B| + 2 ^ 51 * U)
+    (hS2 : 2 ^ 48 * |r2 * U| ≤ |r1 * U| + 2 ^ 50 * |B| + 2 ^ 51 * U)
+    (hQ1 : 2 ^ 53 * |q1 * B - A * U| ≤ 2 ^ 52 * |B| + |A * U|)
+    (hQ2 : 2 ^ 53 * |q2 * B - r1 * U| ≤ 2 ^ 52 * |B| + |r1 * U|)
+    (hQ3 : 2 ^ 53 * |q3 * B - r2 * U| ≤ 2 ^ 52 * |B| + |r2 * U|) :
+    2 * |q2| ≤ |q1| ∧ 32 * |q3| ≤ |q1| ∧ |q1| * |B| ≤ 2 * |A * U| ∧
+    2 ^ 40 * (|q3| * |B|) ≤ |A * U| + 2 ^ 43 * |B| + 2 ^ 44 * U := by
+  have hBp : 0 < |B| := abs_pos.2 hB
+  have t1 := abs_le_add_abs_sub (A * U) (q1 * B)
+  rw [abs_sub_comm] at t1
+  have t1' := abs_le_add_abs_sub (q1 * B) (A * U)
+  have t2 := abs_le_add_abs_sub (q2 * B) (r1 * U)
+  have t3 := abs_le_add_abs_sub (q3 * B) (r2 * U)
+  have n1 := abs_nonneg (r1 * U)
+  have n2 := abs_nonneg (r2 * U)
+  have n3 := abs_nonneg (A * U)
+  have k2 : 2 * |q2 * B| ≤ |q1 * B| := by
+    generalize |q1 * B| = b1 at *
+    generalize |q2 * B| = b2 at *
+    generalize |q3 * B| = b3 at *
+    generalize |q1 * B - A * U| = c1 at *
+    generalize |q2 * B - r1 * U| = c2 at *
+    generalize |q3 * B - r2 * U| = c3 at *
+    generalize |A * U| = a at *
+    generalize |r1 * U| = d1 at *
+    generalize |r2 * U| = d2 at *
+    generalize |B| = b at *
+    omega
+  have k3 : 32 * |q3 * B| ≤ |q1 * B| := by
+    generalize |q1 * B| = b1 at *
+    generalize |q2 * B| = b2 at *
+    generalize |q3 * B| = b3 at *
+    generalize |q1 * B - A * U| = c1 at *
+    generalize |q2 * B - r1 * U| = c2 at *
+    generalize |q3 * B - r2 * U| = c3 at *
+    generalize |A * U| = a at *
+    generalize |r1 * U| = d1 at *
+    generalize |r2 * U| = d2 at *
+    generalize |B| = b at *
+    omega
+  have k1 : |q1 * B| ≤ 2 * |A * U| := by
+    generalize |q1 * B| = b1 at *
+    generalize |q1 * B - A * U| = c1 at *
+    generalize |A * U| = a at *
+    generalize |B| = b at *
+    omega
+  have k4 : 2 ^ 40 * |q3 * B| ≤ |A * U| + 2 ^ 43 * |B| + 2 ^ 44 * U := by
+    generalize |q1 * B| = b1 at *
+    generalize |q2 * B| = b2 at *
+    generalize |q3 * B| = b3 at *
+    generalize |q1 * B - A * U| = c1 at *
+    generalize |q2 * B - r1 * U| = c2 at *
+    generalize |q3 * B - r2 * U| = c3 at *
+    generalize |A * U| = a at *
+    generalize |r1 * U| = d1 at *
+    generalize |r2 * U| = d2 at *
+    generalize |B| = b at *
+    omega
+  rw [abs_mul] at k1 k4
+  rw [abs_mul, abs_mul] at k2 k3
+  refine ⟨?_, ?_, k1, k4⟩
+  · have : (2 * |q2|) * |B| ≤ |q1| * |B| := by linarith
+    exact le_of_mul_le_mul_right this hBp
+  · have : (32 * |q3|) * |B| ≤ |q1| * |B| := by linarith
+    exact le_of_mul_le_mul_right this hBp
+
+
+end F64
+
+namespace TwoFloat
+
+open F64
+
+/-- **`TwoFloat / TwoFloat` returns a normalised pair for EVERY numerator** (no lower bound on `|a.hi|` or on the
+quotient) as soon as the divisor is at least `2^-41` in magnitude (`U ≤ 2^41·|b.hi|` scaled): below the range of
+`div_tt_valid_of_range` the three quotient digits are either all small integers (every addition of `renorm3` is
+exact) or dominated by the first one (`renorm3_crude`).  The value is at most `4|a.hi/b.hi| + 2^47` units. -/
+theorem div_tt_crude {a b : TwoFloat} (ha : a.Valid) (hwa : a.WF) (hb : b.Valid)
+    (A_hi : |a.hi.toInt| ≤ 2 ^ 2090) (B_hi : |b.hi.toInt| ≤ 2 ^ 2090)
+    (Q_hi : |a.hi.toInt * (unit : Int)| ≤ 2 ^ 2090 * |b.hi.toInt|)
+    (hβ : (unit : Int) ≤ 2 ^ 41 * |b.hi.toInt|) :
+    (arithmetic.impl_Div_rTwoFloat_for_rTwoFloat.div a b).Valid ∧
+    (arithmetic.impl_Div_rTwoFloat_for_rTwoFloat.div a b).WF ∧
+    |(arithmetic.impl_Div_rTwoFloat_for_rTwoFloat.div a b).V| * |b.hi.toInt|
+      ≤ 4 * |a.hi.toInt * (unit : Int)| + 2 ^ 48 * |b.hi.toInt| := by
+  have hUi := unit_pos_int
+  have hy0 : b.hi.toInt ≠ 0 := by
+    intro h; rw [h, abs_zero, mul_zero] at hβ; omega
+  have hUB : (unit : Int) ≤ 2 ^ 2026 * |b.hi.toInt| := by
+    have := abs_nonneg b.hi.toInt; omega
+  have hBU : |b.hi.toInt| ≤ 2 ^ 2026 * (unit : Int) := by
+    have : (2 : Int) ^ 1074 ≤ (unit : Int) := by rw [unit_eq]; norm_cast
+    omega
+  rw [div_tt_eq]
+  obtain ⟨vq1, -, -, rv1, hS1, -⟩ := step_core (y := b) (xh := a.hi) (xl := a.lo.toInt)
+    (fun p => arithmetic.impl_Sub_rTwoFloat_for_rTwoFloat.sub a p) hb ha.1 hy0
+    (two_pow_mul_abs_le_of_half_ulp ha.two_mul_abs_lo_le) A_hi B_hi Q_hi
+    (fun p hp hwp bp => sub_tt_val ha hp hwa hwp (by omega) bp)
+  change (divStep a b).Valid at rv1
+  change 2 ^ 48 * |(divStep a b).hi.toInt * (unit : Int)| ≤ _ at hS1
+  obtain ⟨b1, b1'⟩ := next_bounds_int hUi hUB hBU A_hi Q_hi hS1
+  obtain ⟨vq2, -, -, rv2, hS2, -⟩ := step_core (y := b) (xh := (divStep a b).hi) (xl := (divStep a b).lo.toInt)
+    (fun p => arithmetic.impl_Sub_rTwoFloat_for_rTwoFloat.sub (divStep a b) p) hb rv1.1 hy0
+    (two_pow_mul_abs_le_of_half_ulp rv1.two_mul_abs_lo_le) b1 B_hi b1'
+    (fun p hp hwp bp => sub_tt_val rv1 hp (divStep_WF _ _) hwp (by omega) bp)
+  change (divStep (divStep a b) b).Valid at rv2
+  change 2 ^ 48 * |(divStep (divStep a b) b).hi.toInt * (unit : Int)| ≤ _ at hS2
+  obtain ⟨b2, b2'⟩ := next_bounds_int hUi hUB hBU b1 b1' hS2
+  obtain ⟨vq3, _⟩ := div_digit rv2.1 hb.1 hy0 b2'
+  have hQ1 := rdI_err_gen (a.hi.toInt * (unit : Int)) hy0
+  have hQ2 := rdI_err_gen ((divStep a b).hi.toInt * (unit : Int)) hy0
+  have hQ3 := rdI_err_gen ((divStep (divStep a b) b).hi.toInt * (unit : Int)) hy0
+  rw [← vq1.2] at hQ1
+  rw [← vq2.2] at hQ2
+  rw [← vq3.2] at hQ3
+  obtain ⟨d2, d3, d1⟩ := digits_crude_int hUi hy0 hβ hS1 hS2 hQ1 hQ2 hQ3
+  have hq1b : |(F64.div a.hi b.hi).toInt| ≤ 2 ^ 2090 := by
+    rw [vq1.2]; exact (div_digit ha.1 hb.1 hy0 Q_hi).2
+  have hm := two_pow_le_maxFin_int (k := 2092) (by norm_num)
+  have wr := renorm3_WF (F64.div a.hi b.hi) (F64.div (divStep a b).hi b.hi)
+    (F64.div (divStep (divStep a b) b).hi b.hi)
+  have n1 := abs_nonneg (F64.div a.hi b.hi).toInt
+  have n2 := abs_nonneg (F64.div (divStep a b).hi b.hi).toInt
+  have n3 := abs_nonneg (F64.div (divStep (divStep a b) b).hi b.hi).toInt
+  have nB := abs_nonneg b.hi.toInt
+  rcases lt_or_ge |(F64.div a.hi b.hi).toInt| (2 ^ 51) with hlt | hge
+  · have h := renorm3_exact vq1.1 vq2.1 vq3.1 (div_WF _ _) (div_WF _ _) (div_WF _ _) (by omega)
+    have t1 := abs_add_le (F64.div (divStep (divStep a b) b).hi b.hi).toInt
+      ((F64.div a.hi b.hi).toInt + (F64.div (divStep a b).hi b.hi).toInt)
+    have t2 := abs_add_le (F64.div a.hi b.hi).toInt (F64.div (divStep a b).hi b.hi).toInt
+    refine ⟨h.valid wr (by rw [add_zero]; exact (rnI_of_repI (repI_of_abs_lt (by omega))).symm), wr, ?_⟩
+    rw [h.V_eq, add_zero]
+    have : |(F64.div (divStep (divStep a b) b).hi b.hi).toInt
+        + ((F64.div a.hi b.hi).toInt + (F64.div (divStep a b).hi b.hi).toInt)|
+        ≤ 2 * |(F64.div a.hi b.hi).toInt| + 2 ^ 46 := by omega
+    have h2 := mul_le_mul_of_nonneg_right this nB
+    nlinarith
+  · obtain ⟨v, hv, hvb, -⟩ := renorm3_crude vq1.1 vq2.1 vq3.1 (div_WF _ _) (div_WF _ _) (by omega) (by omega)
+      (by omega)
+    refine ⟨hv.valid wr (by rw [add_sub_cancel]), wr, ?_⟩
+    rw [hv.V_eq, add_sub_cancel]
+    have h2 := mul_le_mul_of_nonneg_right hvb nB
+    nlinarith
+
+/-- **`TwoFloat / TwoFloat` when the numerator is at least `2^9` times the absolute error level**
+(`2^9·(|b.hi| + U) ≤ |a.hi·U|`, no other lower bound): a normalised pair with relative error `2^-37` plus a few units -/
+theorem div_tt_alpha {a b : TwoFloat} (ha : a.Valid) (hwa : a.WF) (hb : b.Valid)
+    (hy0 : b.hi.toInt ≠ 0) (hUB : (unit : Int) ≤ 2 ^ 2026 * |b.hi.toInt|)
+    (hBU : |b.hi.toInt| ≤ 2 ^ 2026 * (unit : Int))
+    (A_hi : |a.hi.toInt| ≤ 2 ^ 2090) (B_hi : |b.hi.toInt| ≤ 2 ^ 2090)
+    (Q_hi : |a.hi.toInt * (unit : Int)| ≤ 2 ^ 2090 * |b.hi.toInt|)
+    (hα : 2 ^ 9 * (|b.hi.toInt| + (unit : Int)) ≤ |a.hi.toInt * (unit : Int)|) :
+    (arithmetic.impl_Div_rTwoFloat_for_rTwoFloat.div a b).Valid ∧
+    (arithmetic.impl_Div_rTwoFloat_for_rTwoFloat.div a b).WF ∧
+    2 ^ 37 * |a.V * (unit : Int) - (arithmetic.impl_Div_rTwoFloat_for_rTwoFloat.div a b).V * b.V|
+      ≤ |a.V * (unit : Int)| + 2 ^ 42 * |b.hi.toInt| + 2 ^ 43 * (unit : Int) := by
+  have hUi := unit_pos_int
+  have hacc := div_q12_acc ha hwa hb hy0 hUB hBU A_hi B_hi Q_hi
+  rw [div_tt_eq]
+  obtain ⟨vq1, -, -, rv1, hS1, -⟩ := step_core (y := b) (xh := a.hi) (xl := a.lo.toInt)
+    (fun p => arithmetic.impl_Sub_rTwoFloat_for_rTwoFloat.sub a p) hb ha.1 hy0
+    (two_pow_mul_abs_le_of_half_ulp ha.two_mul_abs_lo_le) A_hi B_hi Q_hi
+    (fun p hp hwp bp => sub_tt_val ha hp hwa hwp (by omega) bp)
+  change (divStep a b).Valid at rv1
+  change 2 ^ 48 * |(divStep a b).hi.toInt * (unit : Int)| ≤ _ at hS1
+  obtain ⟨b1, b1'⟩ := next_bounds_int hUi hUB hBU A_hi Q_hi hS1
+  obtain ⟨vq2, -, -, rv2, hS2, -⟩ := step_core (y := b) (xh := (divStep a b).hi) (xl := (divStep a b).lo.toInt)
+    (fun p => arithmetic.impl_Sub_rTwoFloat_for_rTwoFloat.sub (divStep a b) p) hb rv1.1 hy0
+    (two_pow_mul_abs_le_of_half_ulp rv1.two_mul_abs_lo_le) b1 B_hi b1'
+    (fun p hp hwp bp => sub_tt_val rv1 hp (divStep_WF _ _) hwp (by omega) bp)
+  change (divStep (divStep a b) b).Valid at rv2
+  change 2 ^ 48 * |(divStep (divStep a b) b).hi.toInt * (unit : Int)| ≤ _ at hS2
+  obtain ⟨b2, b2'⟩ := next_bounds_int hUi hUB hBU b1 b1' hS2
+  obtain ⟨vq3, _⟩ := div_digit rv2.1 hb.1 hy0 b2'
+  have hQ1 := rdI_err_gen (a.hi.toInt * (unit : Int)) hy0
+  have hQ2 := rdI_err_gen ((divStep a b).hi.toInt * (unit : Int)) hy0
+  have hQ3 := rdI_err_gen ((divStep (divStep a b) b).hi.toInt * (unit : Int)) hy0
+  rw [← vq1.2] at hQ1
+  rw [← vq2.2] at hQ2
+  rw [← vq3.2] at hQ3
+  obtain ⟨d2, d3, d1, d4⟩ := digits_alpha_int hUi hy0 hα hS1 hS2 hQ1 hQ2 hQ3
+  have hq1b : |(F64.div a.hi b.hi).toInt| ≤ 2 ^ 2090 := by
+    rw [vq1.2]; exact (div_digit ha.1 hb.1 hy0 Q_hi).2
+  have hm := two_pow_le_maxFin_int (k := 2092) (by norm_num)
+  have wr := renorm3_WF (F64.div a.hi b.hi) (F64.div (divStep a b).hi b.hi)
+    (F64.div (divStep (divStep a b) b).hi b.hi)
+  obtain ⟨v, hv, -, hvc⟩ := renorm3_crude vq1.1 vq2.1 vq3.1 (div_WF _ _) (div_WF _ _) d2 d3 (by omega)
+  refine ⟨hv.valid wr (by rw [add_sub_cancel]), wr, ?_⟩
+  rw [hv.V_eq, add_sub_cancel]
+  -- accuracy
+  obtain ⟨hb1, hb2⟩ := PowiBound.hi_bounds hb
+  obtain ⟨ha1, ha2⟩ := PowiBound.hi_bounds ha
+  have nB := abs_nonneg b.hi.toInt
+  have nq3 := abs_nonneg (F64.div (divStep (divStep a b) b).hi b.hi).toInt
+  have hbV : |b.V| ≤ 2 * |b.hi.toInt| := by omega
+  have e : a.V * (unit : Int) - v * b.V
+      = (a.V * (unit : Int) - ((F64.div a.hi b.hi).toInt + (F64.div (divStep a b).hi b.hi).toInt) * b.V)
+        - (F64.div (divStep (divStep a b) b).hi b.hi).toInt * b.V
+        - (v - ((F64.div a.hi b.hi).toInt + (F64.div (divStep a b).hi b.hi).toInt
+            + (F64.div (divStep (divStep a b) b).hi b.hi).toInt)) * b.V := by ring
+  rw [e]
+  have t1 := abs_sub (a.V * (unit : Int) - ((F64.div a.hi b.hi).toInt + (F64.div (divStep a b).hi b.hi).toInt) * b.V
+        - (F64.div (divStep (divStep a b) b).hi b.hi).toInt * b.V)
+      ((v - ((F64.div a.hi b.hi).toInt + (F64.div (divStep a b).hi b.hi).toInt
+            + (F64.div (divStep (divStep a b) b).hi b.hi).toInt)) * b.V)
+  have t2 := abs_sub (a.V * (unit : Int) - ((F64.div a.hi b.hi).toInt + (F64.div (divStep a b).hi b.hi).toInt) * b.V)
+      ((F64.div (divStep (divStep a b) b).hi b.hi).toInt * b.V)
+  rw [abs_mul] at t1 t2
+  have p2 : |(F64.div (divStep (divStep a b) b).hi b.hi).toInt| * |b.V|
+      ≤ 2 * (|(F64.div (divStep (divStep a b) b).hi b.hi).toInt| * |b.hi.toInt|) := by
+    have := mul_le_mul_of_nonneg_left hbV nq3
+    linarith
+  have p3 : |v - ((F64.div a.hi b.hi).toInt + (F64.div (divStep a b).hi b.hi).toInt
+            + (F64.div (divStep (divStep a b) b).hi b.hi).toInt)| * |b.V|
+      ≤ 2 * (|v - ((F64.div a.hi b.hi).toInt + (F64.div (divStep a b).hi b.hi).toInt
+            + (F64.div (divStep (divStep a b) b).hi b.hi).toInt)| * |b.hi.toInt|) := by
+    have := mul_le_mul_of_nonneg_left hbV (abs_nonneg (v - ((F64.div a.hi b.hi).toInt
+      + (F64.div (divStep a b).hi b.hi).toInt + (F64.div (divStep (divStep a b) b).hi b.hi).toInt)))
+    linarith
+  have p4 : 2 ^ 48 * (|v - ((F64.div a.hi b.hi).toInt + (F64.div (divStep a b).hi b.hi).toInt
+            + (F64.div (divStep (divStep a b) b).hi b.hi).toInt)| * |b.hi.toInt|)
+      ≤ |(F64.div a.hi b.hi).toInt| * |b.hi.toInt| := by
+    have := mul_le_mul_of_nonneg_right hvc nB
+    linarith
+  have hAx : |a.hi.toInt * (unit : Int)| ≤ 2 * |a.V * (unit : Int)| := by
+    rw [abs_mul_pos_right _ hUi, abs_mul_pos_right _ hUi]
+    have : |a.hi.toInt| ≤ 2 * |a.V| := by
+      have := abs_nonneg a.hi.toInt; omega
+    have := mul_le_mul_of_nonneg_right this hUi.le
+    linarith
+  have n9 := abs_nonneg (a.V * (unit : Int))
+  generalize |a.V * (unit : Int) - ((F64.div a.hi b.hi).toInt + (F64.div (divStep a b).hi b.hi).toInt) * b.V
+        - (F64.div (divStep (divStep a b) b).hi b.hi).toInt * b.V
+        - (v - ((F64.div a.hi b.hi).toInt + (F64.div (divStep a b).hi b.hi).toInt
+            + (F64.div (divStep (divStep a b) b).hi b.hi).toInt)) * b.V| = G at *
+  generalize |a.V * (unit : Int) - ((F64.div a.hi b.hi).toInt + (F64.div (divStep a b).hi b.hi).toInt) * b.V
+        - (F64.div (divStep (divStep a b) b).hi b.hi).toInt * b.V| = G1 at *
+  generalize |a.V * (unit : Int) - ((F64.div a.hi b.hi).toInt + (F64.div (divStep a b).hi b.hi).toInt) * b.V| = G0 at *
+  generalize |v - ((F64.div a.hi b.hi).toInt + (F64.div (divStep a b).hi b.hi).toInt
+            + (F64.div (divStep (divStep a b) b).hi b.hi).toInt)| * |b.V| = T3 at *
+  generalize |v - ((F64.div a.hi b.hi).toInt + (F64.div (divStep a b).hi b.hi).toInt
+            + (F64.div (divStep (divStep a b) b).hi b.hi).toInt)| * |b.hi.toInt| = T3' at *
+  generalize |(F64.div (divStep (divStep a b) b).hi b.hi).toInt| * |b.V| = T2 at *
+  generalize |(F64.div (divStep (divStep a b) b).hi b.hi).toInt| * |b.hi.toInt| = T2' at *
+  generalize |(F64.div a.hi b.hi).toInt| * |b.hi.toInt| = Q1B at *
+  generalize |a.V * (unit : Int)| = x at *
+  generalize |a.hi.toInt * (unit : Int)| = au at *
+  generalize |b.hi.toInt| = bb at *
+  omega
+
+end TwoFloat
+
 namespace F64
 
 /-! ## 3. the correctly rounded cube root -/
@@ -1299,6 +2050,28 @@ theorem div_tt_real {a b : TwoFloat} (ha : a.Valid) (hwa : a.WF) (hb : b.Valid)
   rw [show (2 : ℝ) ^ 106 = 16 * 2 ^ 102 by norm_num]
   field_simp
 
+/-- `TwoFloat / TwoFloat` over the reals, on the whole of `DivRange`, absolute terms kept -/
+theorem div_tt_real_abs {a b : TwoFloat} (ha : a.Valid) (hwa : a.WF) (hb : b.Valid)
+    (R : DivRange a.hi.toInt b.hi.toInt) :
+    (arithmetic.impl_Div_rTwoFloat_for_rTwoFloat.div a b).Valid ∧
+    (arithmetic.impl_Div_rTwoFloat_for_rTwoFloat.div a b).WF ∧
+    |(a.V : ℝ) * 2 ^ 1074 - ((arithmetic.impl_Div_rTwoFloat_for_rTwoFloat.div a b).V : ℝ) * (b.V : ℝ)|
+      ≤ 15 * (1 / 2 ^ 106) * |(a.V : ℝ) * 2 ^ 1074| + |(b.hi.toInt : ℝ)| + 4 * 2 ^ 1074 := by
+  obtain ⟨hV, hW⟩ := div_tt_valid_of_range ha hwa hb R
+  refine ⟨hV, hW, ?_⟩
+  have hb' := div_tt_acc_abs ha hwa hb R
+  have h2 : 2 ^ 106 * |(a.V : ℝ) * ((unit : Nat) : ℝ)
+      - ((arithmetic.impl_Div_rTwoFloat_for_rTwoFloat.div a b).V : ℝ) * (b.V : ℝ)|
+      ≤ 15 * |(a.V : ℝ) * ((unit : Nat) : ℝ)| + 2 ^ 106 * |(b.hi.toInt : ℝ)| + 2 ^ 108 * ((unit : Nat) : ℝ) := by
+    exact_mod_cast hb'
+  rw [unit_real] at h2
+  have hp : (0 : ℝ) < 2 ^ 106 := by positivity
+  have e : (15 : ℝ) * (1 / 2 ^ 106) * |(a.V : ℝ) * 2 ^ 1074| + |(b.hi.toInt : ℝ)| + 4 * 2 ^ 1074
+      = (15 * |(a.V : ℝ) * 2 ^ 1074| + 2 ^ 106 * |(b.hi.toInt : ℝ)| + 2 ^ 108 * 2 ^ 1074) / 2 ^ 106 := by
+    field_simp; ring
+  rw [e, le_div_iff₀ hp, mul_comm]
+  exact h2
+
 /-- high word against value, over the reals -/
 theorem hi_real {t : TwoFloat} (hv : t.Valid) :
     (1 - 1 / 2 ^ 53) * |(t.hi.toInt : ℝ)| ≤ |(t.V : ℝ)| ∧ |(t.V : ℝ)| ≤ (1 + 1 / 2 ^ 53) * |(t.hi.toInt : ℝ)| := by
@@ -1666,21 +2439,171 @@ theorem div_zero_num {n m : TwoFloat} (nv : n.Valid) (nw : n.WF) (mv : m.Valid) 
   exact ⟨h.valid (renorm3_WF _ _ _) (by simp), renorm3_WF _ _ _, by rw [h.V_eq]; simp⟩
 
 
-/-- the side condition on a Newton numerator `n` (with denominator `m`): exactly zero, or large enough for the
-error analysis of the long division (`|n.hi| ≥ 2^-964` and `|n.hi / m.hi| ≥ 2^-964`) -/
-def NumOK (n m : TwoFloat) : Prop :=
-  n.V = 0 ∨ (2 ^ 110 ≤ |n.hi.toInt| ∧ 2 ^ 110 * |m.hi.toInt| ≤ |n.hi.toInt * (unit : Int)|)
+/-- **`TwoFloat / TwoFloat` for a numerator of at most `2^10` units of `2^-1074` and a divisor below `2^-41`**: the
+first partial product is exact, the remainder vanishes, and the quotient is the single correctly rounded word
+`(RN(n.hi/m.hi), 0)`. -/
+theorem div_tt_tiny {n m : TwoFloat} (nv : n.Valid) (nw : n.WF) (mv : m.Valid) (mw : m.WF)
+    (hA : |n.hi.toInt| ≤ 2 ^ 10) (hB0 : m.hi.toInt ≠ 0) (hβ : 2 ^ 41 * |m.hi.toInt| ≤ (unit : Int))
+    (Q_hi : |n.hi.toInt * (unit : Int)| ≤ 2 ^ 2090 * |m.hi.toInt|) :
+    (divTT n m).Valid ∧ (divTT n m).WF ∧
+    |n.V * (unit : Int) - (divTT n m).V * m.V| ≤ |n.V * (unit : Int)| + |m.hi.toInt| := by
+  have hUi := unit_pos_int
+  -- the numerator is a single word
+  have hlo : n.lo.toInt = 0 := by
+    have h := nv.two_mul_abs_lo_le
+    have hn : n.hi.toInt.natAbs < 2 ^ 53 := by
+      have : ((n.hi.toInt.natAbs : Nat) : Int) < ((2 ^ 53 : Nat) : Int) := by
+        rw [Int.natCast_natAbs]; push_cast; omega
+      exact_mod_cast this
+    rw [log2_sub_eq_zero hn, pow_zero] at h
+    have := abs_nonneg n.lo.toInt
+    have : |n.lo.toInt| = 0 := by omega
+    exact abs_eq_zero.1 this
+  have hV : n.V = n.hi.toInt := by unfold TwoFloat.V; rw [hlo, add_zero]
+  -- first digit
+  obtain ⟨vq1, hq1b⟩ := div_digit nv.1 mv.1 hB0 Q_hi
+  have hQ1 := rdI_err_gen (n.hi.toInt * (unit : Int)) hB0
+  rw [← vq1.2] at hQ1
+  have hAU : |n.hi.toInt * (unit : Int)| ≤ 2 ^ 10 * (unit : Int) := by
+    rw [abs_mul_pos_right _ hUi]; exact mul_le_mul_of_nonneg_right hA hUi.le
+  have nB := abs_nonneg m.hi.toInt
+  have hX : 2 * |m.hi.toInt * (F64.div n.hi m.hi).toInt - n.hi.toInt * (unit : Int)| < (unit : Int) := by
+    rw [mul_comm m.hi.toInt]; omega
+  have hL0 := lo_mul_le (q := (F64.div n.hi m.hi).toInt) mv.two_mul_abs_lo_le
+  have hL : 2 * |m.lo.toInt * (F64.div n.hi m.hi).toInt| < (unit : Int) := by
+    have t := abs_le_add_abs_sub (m.hi.toInt * (F64.div n.hi m.hi).toInt) (n.hi.toInt * (unit : Int))
+    rw [mul_comm m.hi.toInt] at t hL0
+    omega
+  have hp := mul_tf_tiny mv vq1.1 (by omega) hX hL
+  have pw := mul_tf_WF m (F64.div n.hi m.hi)
+  have pv : (arithmetic.impl_Mul_rf64_for_rTwoFloat.mul m (F64.div n.hi m.hi)).Valid :=
+    hp.valid pw (by rw [add_zero]; exact (rnI_of_repI (repI_of_abs_lt (by omega))).symm)
+  have pV : (arithmetic.impl_Mul_rf64_for_rTwoFloat.mul m (F64.div n.hi m.hi)).V = n.hi.toInt := by
+    rw [hp.V_eq, add_zero]
+  -- the remainder vanishes
+  have hm := two_pow_le_maxFin_int (k := 2094) (by norm_num)
+  have hs := sub_tt_bound nv nw pv pw
+    (by have : ((n.hi.toInt.natAbs : Nat) : Int) < ((2 ^ 2094 : Nat) : Int) := by
+          rw [Int.natCast_natAbs]; push_cast; omega
+        exact_mod_cast this)
+    (by rw [hp.1.2]
+        have : ((n.hi.toInt.natAbs : Nat) : Int) < ((2 ^ 2094 : Nat) : Int) := by
+          rw [Int.natCast_natAbs]; push_cast; omega
+        exact_mod_cast this)
+  have r1v : (divStep n m).Valid := hs.1
+  have r10 : (divStep n m).V = 0 := by
+    have h := hs.2
+    rw [pV, hV, sub_self, abs_zero, mul_zero, sub_zero] at h
+    have h1 := abs_nonneg (arithmetic.impl_Sub_rTwoFloat_for_rTwoFloat.sub n
+      (arithmetic.impl_Mul_rf64_for_rTwoFloat.mul m (F64.div n.hi m.hi))).V
+    have h2 : |(arithmetic.impl_Sub_rTwoFloat_for_rTwoFloat.sub n
+      (arithmetic.impl_Mul_rf64_for_rTwoFloat.mul m (F64.div n.hi m.hi))).V| = 0 := by omega
+    exact abs_eq_zero.1 h2
+  have hr1 : (divStep n m).hi.toInt = 0 := by rw [r1v.hi_toInt, r10, rnI_zero]
+  have d2 := zero_digit r1v.1 hr1 mv.1 hB0
+  obtain ⟨-, r2v, r2w, r20⟩ := zero_step r1v (divStep_WF _ _) mv mw r10 hB0
+  have hr2 : (divStep (divStep n m) m).hi.toInt = 0 := by rw [r2v.hi_toInt, r20, rnI_zero]
+  have d3 := zero_digit r2v.1 hr2 mv.1 hB0
+  show (arithmetic.impl_Div_rTwoFloat_for_rTwoFloat.div n m).Valid ∧
+    (arithmetic.impl_Div_rTwoFloat_for_rTwoFloat.div n m).WF ∧
+    |n.V * (unit : Int) - (arithmetic.impl_Div_rTwoFloat_for_rTwoFloat.div n m).V * m.V| ≤ _
+  rw [div_tt_eq]
+  have h := renorm3_drop vq1.1 d2.1 d3.1 (div_WF _ _) (div_WF _ _)
+    (by rw [d2.2]; simp) (by rw [d3.2]; simp)
+    (by have hm2 := two_pow_le_maxFin_int (k := 2092) (by norm_num)
+        rw [vq1.2]; omega)
+  rw [d2.2, add_zero, rnI_of_repI (div_WF n.hi m.hi).repI, sub_self] at h
+  have wr := renorm3_WF (F64.div n.hi m.hi) (F64.div (divStep n m).hi m.hi)
+    (F64.div (divStep (divStep n m) m).hi m.hi)
+  refine ⟨h.valid wr (by rw [add_zero]; exact (rnI_of_repI (div_WF n.hi m.hi).repI).symm), wr, ?_⟩
+  rw [h.V_eq, add_zero, hV]
+  -- accuracy
+  have e : n.hi.toInt * (unit : Int) - (F64.div n.hi m.hi).toInt * m.V
+      = -((F64.div n.hi m.hi).toInt * m.hi.toInt - n.hi.toInt * (unit : Int))
+        - m.lo.toInt * (F64.div n.hi m.hi).toInt := by unfold TwoFloat.V; ring
+  rw [e]
+  have t := abs_sub (-((F64.div n.hi m.hi).toInt * m.hi.toInt - n.hi.toInt * (unit : Int)))
+    (m.lo.toInt * (F64.div n.hi m.hi).toInt)
+  rw [abs_neg] at t
+  have n0 := abs_nonneg (n.hi.toInt * (unit : Int))
+  have t3 := abs_le_add_abs_sub ((F64.div n.hi m.hi).toInt * m.hi.toInt) (n.hi.toInt * (unit : Int))
+  rw [mul_comm m.hi.toInt] at hL0
+  omega
 
-/-- **stage 3 of the Newton step: the quotient `k = n / m`** -/
-theorem step_div {a n m : TwoFloat} {C : ℝ} (nv : n.Valid) (nw : n.WF) (mv : m.Valid) (mw : m.WF)
+/-- **`TwoFloat / TwoFloat` for every valid numerator and every divisor** (only the overflow-side bounds): a
+normalised pair with `|n·U − k·m| ≤ 2^-37 |n·U| + 2^55 |m.hi| + 2^11 U`. -/
+theorem div_tt_any {n m : TwoFloat} (nv : n.Valid) (nw : n.WF) (mv : m.Valid) (mw : m.WF)
+    (hy0 : m.hi.toInt ≠ 0) (hUB : (unit : Int) ≤ 2 ^ 2026 * |m.hi.toInt|)
+    (hBU : |m.hi.toInt| ≤ 2 ^ 2026 * (unit : Int))
+    (A_hi : |n.hi.toInt| ≤ 2 ^ 2090) (B_hi : |m.hi.toInt| ≤ 2 ^ 2090)
+    (Q_hi : |n.hi.toInt * (unit : Int)| ≤ 2 ^ 2090 * |m.hi.toInt|) :
+    (arithmetic.impl_Div_rTwoFloat_for_rTwoFloat.div n m).Valid ∧ (arithmetic.impl_Div_rTwoFloat_for_rTwoFloat.div n m).WF ∧
+    2 ^ 37 * |n.V * (unit : Int) - (arithmetic.impl_Div_rTwoFloat_for_rTwoFloat.div n m).V * m.V|
+      ≤ |n.V * (unit : Int)| + 2 ^ 92 * |m.hi.toInt| + 2 ^ 48 * (unit : Int) := by
+  have hUi := unit_pos_int
+  have nB := abs_nonneg m.hi.toInt
+  have nx := abs_nonneg (n.V * (unit : Int))
+  obtain ⟨hn1, hn2⟩ := PowiBound.hi_bounds nv
+  obtain ⟨hm1, hm2⟩ := PowiBound.hi_bounds mv
+  have hx : |n.V * (unit : Int)| ≤ 2 * |n.hi.toInt * (unit : Int)| := by
+    rw [abs_mul_pos_right _ hUi, abs_mul_pos_right _ hUi]
+    have : |n.V| ≤ 2 * |n.hi.toInt| := by have := abs_nonneg n.V; omega
+    have := mul_le_mul_of_nonneg_right this hUi.le
+    linarith
+  have hmV : |m.V| ≤ 2 * |m.hi.toInt| := by omega
+  by_cases hα : 2 ^ 9 * (|m.hi.toInt| + (unit : Int)) ≤ |n.hi.toInt * (unit : Int)|
+  · obtain ⟨kv, kw, hk⟩ := div_tt_alpha nv nw mv hy0 hUB hBU A_hi B_hi Q_hi hα
+    exact ⟨kv, kw, by omega⟩
+  rw [not_le] at hα
+  by_cases hβ : (unit : Int) ≤ 2 ^ 41 * |m.hi.toInt|
+  · obtain ⟨kv, kw, hk⟩ := div_tt_crude nv nw mv A_hi B_hi Q_hi hβ
+    refine ⟨kv, kw, ?_⟩
+    have t := abs_sub (n.V * (unit : Int)) ((arithmetic.impl_Div_rTwoFloat_for_rTwoFloat.div n m).V * m.V)
+    rw [abs_mul ((arithmetic.impl_Div_rTwoFloat_for_rTwoFloat.div n m).V)] at t
+    have p1 : |(arithmetic.impl_Div_rTwoFloat_for_rTwoFloat.div n m).V| * |m.V|
+        ≤ 2 * (|(arithmetic.impl_Div_rTwoFloat_for_rTwoFloat.div n m).V| * |m.hi.toInt|) := by
+      have := mul_le_mul_of_nonneg_left hmV (abs_nonneg (arithmetic.impl_Div_rTwoFloat_for_rTwoFloat.div n m).V)
+      linarith
+    generalize |n.V * (unit : Int) - (arithmetic.impl_Div_rTwoFloat_for_rTwoFloat.div n m).V * m.V| = G at *
+    generalize |(arithmetic.impl_Div_rTwoFloat_for_rTwoFloat.div n m).V| * |m.V| = KM at *
+    generalize |(arithmetic.impl_Div_rTwoFloat_for_rTwoFloat.div n m).V| * |m.hi.toInt| = KB at *
+    generalize |n.V * (unit : Int)| = x at *
+    generalize |n.hi.toInt * (unit : Int)| = au at *
+    generalize |m.hi.toInt| = bb at *
+    omega
+  · rw [not_le] at hβ
+    have hA : |n.hi.toInt| ≤ 2 ^ 10 := by
+      rw [abs_mul_pos_right _ hUi] at hα
+      by_contra hc
+      rw [not_le] at hc
+      have : (2 ^ 10 + 1) * (unit : Int) ≤ |n.hi.toInt| * (unit : Int) :=
+        mul_le_mul_of_nonneg_right (by omega) hUi.le
+      omega
+    obtain ⟨kv, kw, hk⟩ := div_tt_tiny nv nw mv mw hA hy0 (by omega) Q_hi
+    refine ⟨kv, kw, ?_⟩
+    have hk' : |n.V * (unit : Int) - (arithmetic.impl_Div_rTwoFloat_for_rTwoFloat.div n m).V * m.V|
+        ≤ |n.V * (unit : Int)| + |m.hi.toInt| := hk
+    have hAU : |n.hi.toInt * (unit : Int)| ≤ 2 ^ 10 * (unit : Int) := by
+      rw [abs_mul_pos_right _ hUi]; exact mul_le_mul_of_nonneg_right hA hUi.le
+    omega
+
+/-- the side condition on a Newton numerator `n` (with denominator `m`): exactly zero, or in the range in which
+the long division is known to return a normalised pair (`F64.DivRange`: `|n.hi| ≥ 2^-1010` and
+`|n.hi / m.hi| ≥ 2^-1010`) -/
+def NumOK (n m : TwoFloat) : Prop :=
+  n.V = 0 ∨ (2 ^ 64 ≤ |n.hi.toInt| ∧ 2 ^ 64 * |m.hi.toInt| ≤ |n.hi.toInt * (unit : Int)|)
+
+instance (n m : TwoFloat) : Decidable (NumOK n m) := by unfold NumOK; infer_instance
+
+/-- range side conditions of the division in the Newton step -/
+theorem step_div_ranges {a n m : TwoFloat} {C : ℝ} (nv : n.Valid) (mv : m.Valid)
     (c1 : 2 ^ 773 ≤ |C|) (c2 : |C| ≤ 2 ^ 1375)
     (hC3 : |C| ^ 3 = |(a.V : ℝ)| * (2 ^ 1074) ^ 2) (a2 : |(a.V : ℝ)| ≤ (101 / 100) * 2 ^ 1974)
     (en : |(n.V : ℝ)| ≤ (22 / 10) * |(a.V : ℝ)|)
     (em1 : (29 / 10) * (|C| * |C|) ≤ |(m.V : ℝ)| * 2 ^ 1074)
-    (em2 : |(m.V : ℝ)| * 2 ^ 1074 ≤ (31 / 10) * (|C| * |C|))
-    (H : NumOK n m) :
-    (divTT n m).Valid ∧ (divTT n m).WF ∧
-    |(n.V : ℝ) * 2 ^ 1074 - ((divTT n m).V : ℝ) * (m.V : ℝ)| ≤ 16 * (1 / 2 ^ 106) * |(n.V : ℝ) * 2 ^ 1074| := by
+    (em2 : |(m.V : ℝ)| * 2 ^ 1074 ≤ (31 / 10) * (|C| * |C|)) :
+    m.hi.toInt ≠ 0 ∧ |n.hi.toInt| ≤ (2 : Int) ^ 2090 ∧ |m.hi.toInt| ≤ (2 : Int) ^ 2090 ∧
+    |n.hi.toInt * (unit : Int)| ≤ (2 : Int) ^ 2090 * |m.hi.toInt| := by
   obtain ⟨nh1, nh2⟩ := hi_encl nv
   obtain ⟨mh1, mh2⟩ := hi_encl mv
   have nC := abs_nonneg C
@@ -1701,52 +2624,195 @@ theorem step_div {a n m : TwoFloat} {C : ℝ} (nv : n.Valid) (nw : n.WF) (mv : m
     nlinarith
   have hm0 : m.hi.toInt ≠ 0 := by
     intro h; rw [h] at hmpos; simp at hmpos
-  rcases H with h0 | ⟨hA, hB⟩
+  have A_hi : |n.hi.toInt| ≤ (2 : Int) ^ 2090 := by
+    have : |(n.hi.toInt : ℝ)| ≤ (2 : ℝ) ^ 2090 := by
+      have e : (2 : ℝ) ^ 2090 = 2 ^ 116 * 2 ^ 1974 := by norm_num
+      have e6 : (0 : ℝ) < 2 ^ 1974 := by positivity
+      rw [e]; nlinarith
+    exact_mod_cast this
+  have B_hi : |m.hi.toInt| ≤ (2 : Int) ^ 2090 := by
+    have : |(m.hi.toInt : ℝ)| ≤ (2 : ℝ) ^ 2090 := by
+      have e : (2 : ℝ) ^ 2090 * 2 ^ 1074 = 2 ^ 414 * (2 ^ 1375 * 2 ^ 1375) := by norm_num
+      have e6 : (0 : ℝ) < 2 ^ 1375 * 2 ^ 1375 := by positivity
+      have : |(m.hi.toInt : ℝ)| * 2 ^ 1074 ≤ (2 : ℝ) ^ 2090 * 2 ^ 1074 := by rw [e]; nlinarith
+      exact le_of_mul_le_mul_right this e5
+    exact_mod_cast this
+  refine ⟨hm0, A_hi, B_hi, ?_⟩
+  have : |(n.hi.toInt : ℝ)| * 2 ^ 1074 ≤ (2 : ℝ) ^ 2090 * |(m.hi.toInt : ℝ)| := by
+    have hC3' : |C| * |C| * |C| = |(a.V : ℝ)| * (2 ^ 1074 * 2 ^ 1074) := by
+      have : |C| * |C| * |C| = |C| ^ 3 := by ring
+      rw [this, hC3]; ring
+    have h1 : |(n.hi.toInt : ℝ)| * 2 ^ 1074 * 2 ^ 1074 ≤ (2203 / 1000) * (|C| * |C| * |C|) := by
+      rw [hC3']; nlinarith
+    have h2 : |C| * |C| * |C| ≤ (|C| * |C|) * 2 ^ 1375 := mul_le_mul_of_nonneg_left c2 (by positivity)
+    have h3 : (2897 / 1000) * (|C| * |C|) ≤ |(m.hi.toInt : ℝ)| * 2 ^ 1074 := by nlinarith
+    have h4 : (|(n.hi.toInt : ℝ)| * 2 ^ 1074) * 2 ^ 1074 ≤ ((2 : ℝ) ^ 2090 * |(m.hi.toInt : ℝ)|) * 2 ^ 1074 := by
+      have e : (2 : ℝ) ^ 2090 = 2 ^ 715 * 2 ^ 1375 := by norm_num
+      have e6 : (0 : ℝ) ≤ (|C| * |C|) * 2 ^ 1375 := by positivity
+      have h5 : (2203 / 1000) * ((|C| * |C|) * 2 ^ 1375) ≤ 2 ^ 715 * 2 ^ 1375 * ((2897 / 1000) * (|C| * |C|)) := by
+        have e7 : (2203 / 1000 : ℝ) ≤ 2 ^ 715 * (2897 / 1000) := by norm_num
+        nlinarith
+      rw [e]; nlinarith
+    exact le_of_mul_le_mul_right h4 e5
+  rw [abs_mul, abs_of_pos unit_pos_int]
+  have e0 : (((unit : Nat) : Int) : ℝ) = 2 ^ 1074 := by
+    rw [Int.cast_natCast, unit_real]
+  rw [← e0] at this
+  exact_mod_cast this
+
+/-- the quotient when the numerator is in `DivRange` -/
+theorem step_div_range {n m : TwoFloat} {C : ℝ} (nv : n.Valid) (nw : n.WF) (mv : m.Valid)
+    (c1 : 2 ^ 773 ≤ |C|) (em2 : |(m.V : ℝ)| * 2 ^ 1074 ≤ (31 / 10) * (|C| * |C|))
+    (R : DivRange n.hi.toInt m.hi.toInt) :
+    (divTT n m).Valid ∧ (divTT n m).WF ∧
+    |(n.V : ℝ) * 2 ^ 1074 - ((divTT n m).V : ℝ) * (m.V : ℝ)|
+      ≤ 16 * (1 / 2 ^ 106) * |(n.V : ℝ) * 2 ^ 1074| + (1 / 2 ^ 106 / 1000) * (|C| ^ 3 / 2 ^ 1074) := by
+  obtain ⟨mh1, mh2⟩ := hi_encl mv
+  have nC := abs_nonneg C
+  have e5 : (0 : ℝ) < 2 ^ 1074 := by positivity
+  have n3 := abs_nonneg (m.V : ℝ)
+  obtain ⟨kv, kw, hK⟩ := div_tt_real_abs nv nw mv R
+  refine ⟨kv, kw, le_trans hK ?_⟩
+  have hT : |(m.hi.toInt : ℝ)| + 4 * 2 ^ 1074 ≤ (1 / 2 ^ 106 / 1000) * (|C| ^ 3 / 2 ^ 1074) := by
+    rw [show (1 / 2 ^ 106 / 1000 : ℝ) * (|C| ^ 3 / 2 ^ 1074) = (1 / 2 ^ 106 / 1000) * |C| ^ 3 / 2 ^ 1074 by ring,
+      le_div_iff₀ e5]
+    have cc1 : (2 : ℝ) ^ 773 * 2 ^ 773 ≤ |C| * |C| := mul_le_mul c1 c1 (by positivity) nC
+    have h1 : |(m.hi.toInt : ℝ)| * 2 ^ 1074 ≤ (3104 / 1000) * (|C| * |C|) := by nlinarith
+    have h2 : (|C| * |C|) * 2 ^ 773 ≤ |C| ^ 3 := by
+      have := mul_le_mul_of_nonneg_left c1 (show (0 : ℝ) ≤ |C| * |C| by positivity)
+      calc (|C| * |C|) * 2 ^ 773 ≤ (|C| * |C|) * |C| := this
+        _ = |C| ^ 3 := by ring
+    have h3 : (4 : ℝ) * 2 ^ 1074 * 2 ^ 1074 ≤ 2 ^ 604 * (2 ^ 773 * 2 ^ 773) := by norm_num
+    have h4 : (1 / 2 ^ 106 / 1000 : ℝ) * 2 ^ 773 = 2 ^ 667 / 1000 := by norm_num
+    have h5 : (3104 / 1000 : ℝ) + 2 ^ 604 ≤ 2 ^ 667 / 1000 := by norm_num
+    have h6 : (0 : ℝ) ≤ |C| * |C| := by positivity
+    have h7 : (1 / 2 ^ 106 / 1000 : ℝ) * ((|C| * |C|) * 2 ^ 773) ≤ (1 / 2 ^ 106 / 1000) * |C| ^ 3 :=
+      mul_le_mul_of_nonneg_left h2 (by positivity)
+    have h8 : (1 / 2 ^ 106 / 1000 : ℝ) * ((|C| * |C|) * 2 ^ 773) = (2 ^ 667 / 1000) * (|C| * |C|) := by
+      rw [← h4]; ring
+    nlinarith
+  have n9 := abs_nonneg ((n.V : ℝ) * 2 ^ 1074)
+  generalize |(n.V : ℝ) * 2 ^ 1074| = X at hT n9 ⊢
+  generalize |C| ^ 3 / 2 ^ 1074 = Y at hT ⊢
+  generalize |(m.hi.toInt : ℝ)| = Z at hT ⊢
+  linarith only [hT, n9]
+
+/-- the quotient when the numerator is non-zero and below `DivRange`: a normalised pair (`div_tt_any`) whose
+contribution is negligible -/
+theorem step_div_small {n m : TwoFloat} {C : ℝ} (nv : n.Valid) (nw : n.WF) (mv : m.Valid) (mw : m.WF)
+    (c1 : 2 ^ 773 ≤ |C|)
+    (em1 : (29 / 10) * (|C| * |C|) ≤ |(m.V : ℝ)| * 2 ^ 1074)
+    (em2 : |(m.V : ℝ)| * 2 ^ 1074 ≤ (31 / 10) * (|C| * |C|))
+    (hm0 : m.hi.toInt ≠ 0)
+    (A_hi : |n.hi.toInt| ≤ (2 : Int) ^ 2090) (B_hi : |m.hi.toInt| ≤ (2 : Int) ^ 2090)
+    (Q_hi : |n.hi.toInt * (unit : Int)| ≤ (2 : Int) ^ 2090 * |m.hi.toInt|)
+    (hs : |n.hi.toInt| < 2 ^ 64 ∨ |n.hi.toInt * (unit : Int)| < 2 ^ 64 * |m.hi.toInt|) :
+    (divTT n m).Valid ∧ (divTT n m).WF ∧
+    |(n.V : ℝ) * 2 ^ 1074 - ((divTT n m).V : ℝ) * (m.V : ℝ)|
+      ≤ 16 * (1 / 2 ^ 106) * |(n.V : ℝ) * 2 ^ 1074| + (1 / 2 ^ 106 / 1000) * (|C| ^ 3 / 2 ^ 1074) := by
+  obtain ⟨nh1, nh2⟩ := hi_encl nv
+  obtain ⟨mh1, mh2⟩ := hi_encl mv
+  have nC := abs_nonneg C
+  have e5 : (0 : ℝ) < 2 ^ 1074 := by positivity
+  have cc1 : (2 : ℝ) ^ 773 * 2 ^ 773 ≤ |C| * |C| := mul_le_mul c1 c1 (by positivity) nC
+  have n0 := abs_nonneg (n.hi.toInt : ℝ)
+  have n1 := abs_nonneg (m.hi.toInt : ℝ)
+  have n3 := abs_nonneg (m.V : ℝ)
+  have n4 := abs_nonneg (n.V : ℝ)
+  have e0 : (((unit : Nat) : Int) : ℝ) = 2 ^ 1074 := by
+    rw [Int.cast_natCast, unit_real]
+  -- the divisor is between `2^-1952` and `2^952` relative to the unit
+  have hmlo : (2897 / 1000 : ℝ) * 2 ^ 472 ≤ |(m.hi.toInt : ℝ)| := by
+    have e : (2 : ℝ) ^ 773 * 2 ^ 773 = 2 ^ 472 * 2 ^ 1074 := by norm_num
+    have h1 : (2897 / 1000) * (2 ^ 472 * 2 ^ 1074) ≤ |(m.hi.toInt : ℝ)| * 2 ^ 1074 := by
+      rw [← e]; nlinarith
+    have : ((2897 / 1000 : ℝ) * 2 ^ 472) * 2 ^ 1074 ≤ |(m.hi.toInt : ℝ)| * 2 ^ 1074 := by linarith
+    exact le_of_mul_le_mul_right this e5
+  have hUB : (unit : Int) ≤ 2 ^ 2026 * |m.hi.toInt| := by
+    have : (2 : ℝ) ^ 1074 ≤ 2 ^ 2026 * |(m.hi.toInt : ℝ)| := by
+      have e : (2 : ℝ) ^ 1074 = 2 ^ 602 * 2 ^ 472 := by norm_num
+      have e6 : (0 : ℝ) < 2 ^ 472 := by positivity
+      have e7 : (2 : ℝ) ^ 602 ≤ 2 ^ 2026 := by norm_num
+      rw [e]; nlinarith
+    rw [← e0] at this
+    exact_mod_cast this
+  have hBU : |m.hi.toInt| ≤ 2 ^ 2026 * (unit : Int) := by
+    have : (2 : Int) ^ 1074 ≤ (unit : Int) := by rw [unit_eq]; norm_cast
+    omega
+  obtain ⟨kv, kw, hk⟩ := div_tt_any nv nw mv mw hm0 hUB hBU A_hi B_hi Q_hi
+  refine ⟨kv, kw, ?_⟩
+  have hk' : 2 ^ 37 * |(n.V : ℝ) * 2 ^ 1074 - ((divTT n m).V : ℝ) * (m.V : ℝ)|
+      ≤ |(n.V : ℝ) * 2 ^ 1074| + 2 ^ 92 * |(m.hi.toInt : ℝ)| + 2 ^ 48 * 2 ^ 1074 := by
+    have : 2 ^ 37 * |(n.V : ℝ) * (((unit : Nat) : Int) : ℝ) - ((divTT n m).V : ℝ) * (m.V : ℝ)|
+        ≤ |(n.V : ℝ) * (((unit : Nat) : Int) : ℝ)| + 2 ^ 92 * |(m.hi.toInt : ℝ)|
+          + 2 ^ 48 * (((unit : Nat) : Int) : ℝ) := by
+      exact_mod_cast hk
+    rwa [e0] at this
+  -- everything is negligible against `T`
+  have hsr : |(n.hi.toInt : ℝ)| * 2 ^ 1074 ≤ 2 ^ 64 * 2 ^ 1074 + 2 ^ 64 * |(m.hi.toInt : ℝ)| := by
+    rcases hs with h | h
+    · have : |(n.hi.toInt : ℝ)| < 2 ^ 64 := by exact_mod_cast h
+      nlinarith
+    · have : |(n.hi.toInt : ℝ) * (((unit : Nat) : Int) : ℝ)| < 2 ^ 64 * |(m.hi.toInt : ℝ)| := by
+        exact_mod_cast h
+      rw [e0, abs_mul, abs_of_pos e5] at this
+      nlinarith
+  have hx : |(n.V : ℝ) * 2 ^ 1074| ≤ (1002 / 1000) * (2 ^ 64 * 2 ^ 1074 + 2 ^ 64 * |(m.hi.toInt : ℝ)|) := by
+    rw [abs_mul, abs_of_pos e5]; nlinarith
+  have hmU : |(m.hi.toInt : ℝ)| * 2 ^ 1074 ≤ (3104 / 1000) * (|C| * |C|) := by nlinarith
+  have hT : 2 ^ 56 * |(m.hi.toInt : ℝ)| + 2 ^ 28 * 2 ^ 1074 ≤ (1 / 2 ^ 106 / 1000) * (|C| ^ 3 / 2 ^ 1074) := by
+    rw [show (1 / 2 ^ 106 / 1000 : ℝ) * (|C| ^ 3 / 2 ^ 1074) = (1 / 2 ^ 106 / 1000) * |C| ^ 3 / 2 ^ 1074 by ring,
+      le_div_iff₀ e5]
+    have h2 : (|C| * |C|) * 2 ^ 773 ≤ |C| ^ 3 := by
+      have := mul_le_mul_of_nonneg_left c1 (show (0 : ℝ) ≤ |C| * |C| by positivity)
+      calc (|C| * |C|) * 2 ^ 773 ≤ (|C| * |C|) * |C| := this
+        _ = |C| ^ 3 := by ring
+    have h4 : (1 / 2 ^ 106 / 1000 : ℝ) * 2 ^ 773 = 2 ^ 667 / 1000 := by norm_num
+    have h7 : (1 / 2 ^ 106 / 1000 : ℝ) * ((|C| * |C|) * 2 ^ 773) ≤ (1 / 2 ^ 106 / 1000) * |C| ^ 3 :=
+      mul_le_mul_of_nonneg_left h2 (by positivity)
+    have h8 : (1 / 2 ^ 106 / 1000 : ℝ) * ((|C| * |C|) * 2 ^ 773) = (2 ^ 667 / 1000) * (|C| * |C|) := by
+      rw [← h4]; ring
+    have h3 : (2 : ℝ) ^ 28 * 2 ^ 1074 * 2 ^ 1074 ≤ 2 ^ 630 * (2 ^ 773 * 2 ^ 773) := by norm_num
+    have h5 : (2 : ℝ) ^ 630 + 2 ^ 56 * (3104 / 1000) ≤ 2 ^ 667 / 1000 := by norm_num
+    have h6 : (0 : ℝ) ≤ |C| * |C| := by positivity
+    nlinarith
+  have n9 := abs_nonneg ((n.V : ℝ) * 2 ^ 1074)
+  have hfin : |(n.V : ℝ) * 2 ^ 1074 - ((divTT n m).V : ℝ) * (m.V : ℝ)|
+      ≤ 2 ^ 56 * |(m.hi.toInt : ℝ)| + 2 ^ 28 * 2 ^ 1074 := by
+    generalize |(n.V : ℝ) * 2 ^ 1074 - ((divTT n m).V : ℝ) * (m.V : ℝ)| = G at hk' ⊢
+    generalize |(n.V : ℝ) * 2 ^ 1074| = X at hk' hx
+    generalize |(m.hi.toInt : ℝ)| = B' at hk' hx n1 ⊢
+    have e11 : (0 : ℝ) < 2 ^ 37 := by positivity
+    have : 2 ^ 37 * G ≤ 2 ^ 37 * (2 ^ 56 * B' + 2 ^ 28 * 2 ^ 1074) := by linarith only [hk', hx, n1]
+    exact le_of_mul_le_mul_left this e11
+  generalize |(n.V : ℝ) * 2 ^ 1074 - ((divTT n m).V : ℝ) * (m.V : ℝ)| = G at hfin ⊢
+  generalize |(n.V : ℝ) * 2 ^ 1074| = X at n9 ⊢
+  generalize |C| ^ 3 / 2 ^ 1074 = Y at hT ⊢
+  generalize (2 : ℝ) ^ 56 * |(m.hi.toInt : ℝ)| + 2 ^ 28 * 2 ^ 1074 = W at hT hfin
+  linarith only [hT, n9, hfin]
+
+/-- **stage 3 of the Newton step: the quotient `k = n / m`** -/
+theorem step_div {a n m : TwoFloat} {C : ℝ} (nv : n.Valid) (nw : n.WF) (mv : m.Valid) (mw : m.WF)
+    (c1 : 2 ^ 773 ≤ |C|) (c2 : |C| ≤ 2 ^ 1375)
+    (hC3 : |C| ^ 3 = |(a.V : ℝ)| * (2 ^ 1074) ^ 2) (a2 : |(a.V : ℝ)| ≤ (101 / 100) * 2 ^ 1974)
+    (en : |(n.V : ℝ)| ≤ (22 / 10) * |(a.V : ℝ)|)
+    (em1 : (29 / 10) * (|C| * |C|) ≤ |(m.V : ℝ)| * 2 ^ 1074)
+    (em2 : |(m.V : ℝ)| * 2 ^ 1074 ≤ (31 / 10) * (|C| * |C|)) :
+    (divTT n m).Valid ∧ (divTT n m).WF ∧
+    |(n.V : ℝ) * 2 ^ 1074 - ((divTT n m).V : ℝ) * (m.V : ℝ)|
+      ≤ 16 * (1 / 2 ^ 106) * |(n.V : ℝ) * 2 ^ 1074| + (1 / 2 ^ 106 / 1000) * (|C| ^ 3 / 2 ^ 1074) := by
+  obtain ⟨hm0, A_hi, B_hi, Q_hi⟩ := step_div_ranges nv mv c1 c2 hC3 a2 en em1 em2
+  by_cases h0 : n.V = 0
   · obtain ⟨kv, kw, k0⟩ := div_zero_num nv nw mv mw h0 hm0
     refine ⟨kv, kw, ?_⟩
-    rw [h0, k0]; simp
-  · have A_hi : |n.hi.toInt| ≤ (2 : Int) ^ 2090 := by
-      have : |(n.hi.toInt : ℝ)| ≤ (2 : ℝ) ^ 2090 := by
-        have e : (2 : ℝ) ^ 2090 = 2 ^ 116 * 2 ^ 1974 := by norm_num
-        have e6 : (0 : ℝ) < 2 ^ 1974 := by positivity
-        rw [e]; nlinarith
-      exact_mod_cast this
-    have B_hi : |m.hi.toInt| ≤ (2 : Int) ^ 2090 := by
-      have : |(m.hi.toInt : ℝ)| ≤ (2 : ℝ) ^ 2090 := by
-        have e : (2 : ℝ) ^ 2090 * 2 ^ 1074 = 2 ^ 414 * (2 ^ 1375 * 2 ^ 1375) := by norm_num
-        have e6 : (0 : ℝ) < 2 ^ 1375 * 2 ^ 1375 := by positivity
-        have : |(m.hi.toInt : ℝ)| * 2 ^ 1074 ≤ (2 : ℝ) ^ 2090 * 2 ^ 1074 := by rw [e]; nlinarith
-        exact le_of_mul_le_mul_right this e5
-      exact_mod_cast this
-    have Q_hi : |n.hi.toInt * (unit : Int)| ≤ (2 : Int) ^ 2090 * |m.hi.toInt| := by
-      have : |(n.hi.toInt : ℝ)| * 2 ^ 1074 ≤ (2 : ℝ) ^ 2090 * |(m.hi.toInt : ℝ)| := by
-        have hC3' : |C| * |C| * |C| = |(a.V : ℝ)| * (2 ^ 1074 * 2 ^ 1074) := by
-          have : |C| * |C| * |C| = |C| ^ 3 := by ring
-          rw [this, hC3]; ring
-        have h1 : |(n.hi.toInt : ℝ)| * 2 ^ 1074 * 2 ^ 1074 ≤ (2203 / 1000) * (|C| * |C| * |C|) := by
-          rw [hC3']; nlinarith
-        have h2 : |C| * |C| * |C| ≤ (|C| * |C|) * 2 ^ 1375 := mul_le_mul_of_nonneg_left c2 (by positivity)
-        have h3 : (2897 / 1000) * (|C| * |C|) ≤ |(m.hi.toInt : ℝ)| * 2 ^ 1074 := by nlinarith
-        have h4 : (|(n.hi.toInt : ℝ)| * 2 ^ 1074) * 2 ^ 1074 ≤ ((2 : ℝ) ^ 2090 * |(m.hi.toInt : ℝ)|) * 2 ^ 1074 := by
-          have e : (2 : ℝ) ^ 2090 = 2 ^ 715 * 2 ^ 1375 := by norm_num
-          have e6 : (0 : ℝ) ≤ (|C| * |C|) * 2 ^ 1375 := by positivity
-          have h5 : (2203 / 1000) * ((|C| * |C|) * 2 ^ 1375) ≤ 2 ^ 715 * 2 ^ 1375 * ((2897 / 1000) * (|C| * |C|)) := by
-            have e7 : (2203 / 1000 : ℝ) ≤ 2 ^ 715 * (2897 / 1000) := by norm_num
-            nlinarith
-          rw [e]; nlinarith
-        exact le_of_mul_le_mul_right h4 e5
-      rw [abs_mul, abs_of_pos unit_pos_int]
-      have e0 : (((unit : Nat) : Int) : ℝ) = 2 ^ 1074 := by
-        rw [Int.cast_natCast, unit_real]
-      rw [← e0] at this
-      exact_mod_cast this
-    have hU1 : (1 : Int) ≤ (unit : Int) := unit_pos_int
-    have R : DivRange n.hi.toInt m.hi.toInt :=
-      ⟨le_trans (pow_le_pow_right₀ (by norm_num) (by norm_num)) hA, A_hi, B_hi,
-        le_trans (mul_le_mul_of_nonneg_right (pow_le_pow_right₀ (by norm_num) (by norm_num)) (abs_nonneg _)) hB,
-        Q_hi⟩
-    exact div_tt_real nv nw mv R hB hA
-
+    rw [h0, k0]; simp; positivity
+  by_cases hR : 2 ^ 64 ≤ |n.hi.toInt| ∧ 2 ^ 64 * |m.hi.toInt| ≤ |n.hi.toInt * (unit : Int)|
+  · exact step_div_range nv nw mv c1 em2 ⟨hR.1, A_hi, B_hi, hR.2, Q_hi⟩
+  · have hs : |n.hi.toInt| < 2 ^ 64 ∨ |n.hi.toInt * (unit : Int)| < 2 ^ 64 * |m.hi.toInt| := by
+      by_contra hc
+      rw [not_or, not_lt, not_lt] at hc
+      exact hR hc
+    exact step_div_small nv nw mv mw c1 em1 em2 hm0 A_hi B_hi Q_hi hs
 
 /-- the Newton step `x − (x²·x − a)/(3·x²)` of `TwoFloat::cbrt`, as computed by the crate -/
 def cbrtStep (x a : TwoFloat) : TwoFloat :=
@@ -1758,18 +2824,22 @@ theorem k_bound {a n m k : TwoFloat} {C : ℝ} (kv : k.Valid)
     (hC3 : |C| ^ 3 = |(a.V : ℝ)| * (2 ^ 1074) ^ 2)
     (en : |(n.V : ℝ)| ≤ (22 / 10) * |(a.V : ℝ)|)
     (em1 : (29 / 10) * (|C| * |C|) ≤ |(m.V : ℝ)| * 2 ^ 1074)
-    (hK : |(n.V : ℝ) * 2 ^ 1074 - (k.V : ℝ) * (m.V : ℝ)| ≤ 16 * (1 / 2 ^ 106) * |(n.V : ℝ) * 2 ^ 1074|) :
+    (hK : |(n.V : ℝ) * 2 ^ 1074 - (k.V : ℝ) * (m.V : ℝ)|
+      ≤ 16 * (1 / 2 ^ 106) * |(n.V : ℝ) * 2 ^ 1074| + (1 / 2 ^ 106 / 1000) * (|C| ^ 3 / 2 ^ 1074)) :
     |k.hi.toInt| < (2 : Int) ^ 2094 := by
   obtain ⟨-, kh2⟩ := hi_encl kv
   have e5 : (0 : ℝ) < 2 ^ 1074 := by positivity
   have nC := abs_nonneg C
-  have hkm : |(k.V : ℝ)| * |(m.V : ℝ)| ≤ (1001 / 1000) * (|(n.V : ℝ)| * 2 ^ 1074) := by
+  have hkm : |(k.V : ℝ)| * |(m.V : ℝ)| ≤ (1001 / 1000) * (|(n.V : ℝ)| * 2 ^ 1074)
+      + (1 / 1000) * (|C| ^ 3 / 2 ^ 1074) := by
     have t1 := CbrtReal.abs_le_of_sub (a := (k.V : ℝ) * (m.V : ℝ)) (b := (n.V : ℝ) * 2 ^ 1074)
-      (r := 16 * (1 / 2 ^ 106) * |(n.V : ℝ) * 2 ^ 1074|) (by rw [abs_sub_comm]; exact hK)
+      (r := 16 * (1 / 2 ^ 106) * |(n.V : ℝ) * 2 ^ 1074| + (1 / 2 ^ 106 / 1000) * (|C| ^ 3 / 2 ^ 1074))
+      (by rw [abs_sub_comm]; exact hK)
     rw [abs_mul, abs_mul, abs_of_pos e5] at t1
-    rw [abs_mul, abs_of_pos e5] at hK
     have n0 : 0 ≤ |(n.V : ℝ)| * 2 ^ 1074 := by positivity
-    have : (16 : ℝ) * (1 / 2 ^ 106) ≤ 1 / 1000 := by norm_num
+    have n1 : 0 ≤ |C| ^ 3 / 2 ^ 1074 := by positivity
+    have h1 : (16 : ℝ) * (1 / 2 ^ 106) ≤ 1 / 1000 := by norm_num
+    have h2 : (1 / 2 ^ 106 / 1000 : ℝ) ≤ 1 / 1000 := by norm_num
     nlinarith
   have hC3' : |C| * |C| * |C| = |(a.V : ℝ)| * (2 ^ 1074 * 2 ^ 1074) := by
     have : |C| * |C| * |C| = |C| ^ 3 := by ring
@@ -1779,14 +2849,18 @@ theorem k_bound {a n m k : TwoFloat} {C : ℝ} (kv : k.Valid)
     have : 0 < |C| := by linarith
     positivity
   have hk : |(k.V : ℝ)| ≤ (8 / 10) * |C| := by
-    have h1 : (|(k.V : ℝ)| * |(m.V : ℝ)|) * 2 ^ 1074 ≤ (2203 / 1000) * (|C| * |C| * |C|) := by
-      rw [hC3']
+    have h1 : (|(k.V : ℝ)| * |(m.V : ℝ)|) * 2 ^ 1074 ≤ (2204 / 1000) * (|C| * |C| * |C|) := by
       have := mul_le_mul_of_nonneg_right hkm e5.le
+      have e9 : (1 / 1000 : ℝ) * (|C| ^ 3 / 2 ^ 1074) * 2 ^ 1074 = (1 / 1000) * (|C| * |C| * |C|) := by
+        field_simp
       have n0 := abs_nonneg (a.V : ℝ)
-      nlinarith
+      have e10 : (1001 / 1000 : ℝ) * (|(n.V : ℝ)| * 2 ^ 1074) * 2 ^ 1074
+          ≤ (2203 / 1000) * (|(a.V : ℝ)| * (2 ^ 1074 * 2 ^ 1074)) := by nlinarith
+      rw [← hC3'] at e10
+      linarith
     have h2 : |(k.V : ℝ)| * ((29 / 10) * (|C| * |C|)) ≤ |(k.V : ℝ)| * (|(m.V : ℝ)| * 2 ^ 1074) :=
       mul_le_mul_of_nonneg_left em1 (abs_nonneg _)
-    have h3 : (|(k.V : ℝ)| * (29 / 10)) * (|C| * |C|) ≤ ((2203 / 1000) * |C|) * (|C| * |C|) := by nlinarith
+    have h3 : (|(k.V : ℝ)| * (29 / 10)) * (|C| * |C|) ≤ ((2204 / 1000) * |C|) * (|C| * |C|) := by nlinarith
     have := le_of_mul_le_mul_right h3 cc0
     linarith
   have : |(k.hi.toInt : ℝ)| < (2 : ℝ) ^ 2094 := by
@@ -1799,12 +2873,11 @@ theorem eta3_le : (301 / 100 : ℝ) * (1 / 2 ^ 106) ≤ 1 / 2 ^ 50 := by norm_nu
 theorem eta2_le : (2 : ℝ) * (1 / 2 ^ 106) ≤ 1 / 2 ^ 50 := by norm_num
 
 /-- **one Newton step of `cbrt` in double-word arithmetic**: from relative error `E ≤ 2^-50` to
-`1.001·E² + 6.5·2^-106`, for `|a.hi| ∈ [2^-900, 2^900]`, under the side condition `NumOK` on the numerator. -/
+`1.001·E² + 6.5·2^-106`, for `|a.hi| ∈ [2^-900, 2^900]`. -/
 theorem cbrt_step {x a : TwoFloat} {C E : ℝ} (hvx : x.Valid) (hwx : x.WF) (hva : a.Valid) (hwa : a.WF)
     (ha1 : 2 ^ 174 ≤ |a.hi.toInt|) (ha2 : |a.hi.toInt| ≤ 2 ^ 1974)
     (hCa : C ^ 3 = (a.V : ℝ) * (2 ^ 1074) ^ 2) (hE0 : 0 ≤ E) (hE : E ≤ 1 / 2 ^ 50)
-    (hx : |(x.V : ℝ) - C| ≤ E * |C|)
-    (H : NumOK (subTT (mulTT (mulTT x x) x) a) (mulFT (f64lit 0x4008000000000000) (mulTT x x))) :
+    (hx : |(x.V : ℝ) - C| ≤ E * |C|) :
     (cbrtStep x a).Valid ∧ (cbrtStep x a).WF ∧
     |((cbrtStep x a).V : ℝ) - C| ≤ ((1001 / 1000) * E ^ 2 + (13 / 2) * (1 / 2 ^ 106)) * |C| := by
   obtain ⟨a1, a2, hC3, c1, c2⟩ := C_range hva ha1 ha2 hCa
@@ -1835,7 +2908,7 @@ theorem cbrt_step {x a : TwoFloat} {C E : ℝ} (hvx : x.Valid) (hwx : x.WF) (hva
   have em2 : |((mulFT (f64lit 0x4008000000000000) (mulTT x x)).V : ℝ)| * 2 ^ 1074 ≤ (31 / 10) * (|C| * |C|) := by
     have : (0 : ℝ) ≤ |C| * |C| := by positivity
     linarith
-  obtain ⟨kv, kw, hK⟩ := step_div nv nw mv mw c1 c2 hC3 a2 en em1 em2 H
+  obtain ⟨kv, kw, hK⟩ := step_div nv nw mv mw c1 c2 hC3 a2 en em1 em2
   -- the final subtraction
   have bx : |x.hi.toInt| < (2 : Int) ^ 2094 := by
     have : |(x.hi.toInt : ℝ)| < (2 : ℝ) ^ 2094 := by
@@ -1848,8 +2921,8 @@ theorem cbrt_step {x a : TwoFloat} {C E : ℝ} (hvx : x.Valid) (hwx : x.WF) (hva
     exact k_bound kv c1 c2 hC3 en em1 hK
   obtain ⟨rv, rw', hX'⟩ := sub_tt_real hvx hwx kv kw bx bk
   refine ⟨rv, rw', ?_⟩
-  exact CbrtReal.newton_scaled (η := 1 / 2 ^ 106) (τ := 0) (U := 2 ^ 1074) (by positivity) (by norm_num)
-    (le_refl _) (by positivity) hE0 hE e5 hC0 hCa hx hP hQ hN hM (by rw [zero_mul, add_zero]; exact hK) hX'
+  exact CbrtReal.newton_scaled (η := 1 / 2 ^ 106) (τ := 1 / 2 ^ 106 / 1000) (U := 2 ^ 1074) (by positivity)
+    (by norm_num) (by positivity) (le_refl _) hE0 hE e5 hC0 hCa hx hP hQ hN hM hK hX'
 
 
 theorem maxFin_lt : maxFin < 2 ^ 2098 := by
@@ -2036,12 +3109,12 @@ theorem cbrt_val_of_numOK {x : TwoFloat} (hv : x.Valid) (hw : x.WF)
   obtain ⟨C, hC⟩ := exists_cbrt ((x.V : ℝ) * (2 ^ 1074) ^ 2)
   obtain ⟨v0, w0, e0⟩ := cbrt_init hv hw h0 hC
   have hE0 : (151 / 100 : ℝ) * (1 / 2 ^ 53) ≤ 1 / 2 ^ 50 := by norm_num
-  obtain ⟨v1, w1, e1⟩ := cbrt_step v0 w0 hv hw hlo hhi hC (by positivity) hE0 e0 H1
+  obtain ⟨v1, w1, e1⟩ := cbrt_step v0 w0 hv hw hlo hhi hC (by positivity) hE0 e0 (Or.inl H1)
   have hE1 : ((1001 / 1000 : ℝ) * ((151 / 100) * (1 / 2 ^ 53)) ^ 2 + (13 / 2) * (1 / 2 ^ 106)) ≤ 9 * (1 / 2 ^ 106) := by
     norm_num
   have e1' : |((cbrtStep (convert.impl_From_f64_for_TwoFloat.from (F64.cbrt x.hi)) x).V : ℝ) - C|
       ≤ (9 * (1 / 2 ^ 106)) * |C| := le_trans e1 (mul_le_mul_of_nonneg_right hE1 (abs_nonneg C))
-  obtain ⟨v2, w2, e2⟩ := cbrt_step v1 w1 hv hw hlo hhi hC (by positivity) (by norm_num) e1' H2
+  obtain ⟨v2, w2, e2⟩ := cbrt_step v1 w1 hv hw hlo hhi hC (by positivity) (by norm_num) e1' (Or.inl H2)
   rw [cbrt_eq x hv.1 h0]
   refine ⟨v2, w2, C, hC, ?_⟩
   have hE2 : ((1001 / 1000 : ℝ) * (9 * (1 / 2 ^ 106)) ^ 2 + (13 / 2) * (1 / 2 ^ 106)) ≤ 7 / 2 ^ 106 := by
@@ -2050,5 +3123,110 @@ theorem cbrt_val_of_numOK {x : TwoFloat} (hv : x.Valid) (hw : x.WF)
   have hp : (0 : ℝ) < 2 ^ 106 := by positivity
   rw [show (7 : ℝ) / 2 ^ 106 * |C| = 7 * |C| / 2 ^ 106 by ring, le_div_iff₀ hp] at this
   linarith
+
+/-- **`TwoFloat::cbrt`, value level, UNCONDITIONAL on `|x.hi| ∈ [2^-59, 2^900]`**: for every valid, well-formed `x`
+in this range the result is a valid well-formed pair within `7·2^-106` (relative) of the real cube root.  (Below
+`2^-59` the Newton numerator can fall below the range in which the long division is analysed — there the statement
+holds under the side conditions `NumOK`, `cbrt_val_of_numOK`.) -/
+theorem cbrt_val_mid {x : TwoFloat} (hv : x.Valid) (hw : x.WF)
+    (hlo : 2 ^ 1015 ≤ |x.hi.toInt|) (hhi : |x.hi.toInt| ≤ 2 ^ 1974) :
+    (TwoFloat.cbrt x).Valid ∧ (TwoFloat.cbrt x).WF ∧
+    ∃ C : ℝ, C ^ 3 = (x.V : ℝ) * (2 ^ 1074) ^ 2 ∧
+      2 ^ 106 * |((TwoFloat.cbrt x).V : ℝ) - C| ≤ 7 * |C| := by
+  have hlo' : (2 : Int) ^ 174 ≤ |x.hi.toInt| := le_trans (pow_le_pow_right₀ (by norm_num) (by norm_num)) hlo
+  have h0 : x.hi.toInt ≠ 0 := by
+    intro h; rw [h, abs_zero] at hlo
+    have : (0 : Int) < 2 ^ 1015 := by positivity
+    omega
+  obtain ⟨C, hC⟩ := exists_cbrt ((x.V : ℝ) * (2 ^ 1074) ^ 2)
+  -- the cube root is at least `2^-20`
+  have hC54 : (2 : ℝ) ^ 1054 ≤ |C| := by
+    obtain ⟨h1, -⟩ := hi_real hv
+    have c1 : (2 : ℝ) ^ 1015 ≤ |(x.hi.toInt : ℝ)| := by exact_mod_cast hlo
+    have hC3 : |C| ^ 3 = |(x.V : ℝ)| * (2 ^ 1074) ^ 2 := by
+      rw [← abs_pow, hC, abs_mul, abs_of_pos (by positivity : (0 : ℝ) < (2 ^ 1074) ^ 2)]
+    by_contra hc
+    rw [not_le] at hc
+    have : |C| ^ 3 < (2 ^ 1054) ^ 3 := pow_lt_pow_left₀ hc (abs_nonneg C) (by norm_num)
+    rw [hC3] at this
+    have e1 : ((2 : ℝ) ^ 1054) ^ 3 = (1 / 2) * 2 ^ 1015 * (2 ^ 1074) ^ 2 := by norm_num
+    have e2 : (0 : ℝ) < (2 ^ 1074) ^ 2 := by positivity
+    have u1 : (1 : ℝ) / 2 ^ 53 ≤ 1 / 100 := by norm_num
+    have n0 := abs_nonneg (x.hi.toInt : ℝ)
+    have l1 : (99 / 100) * 2 ^ 1015 ≤ |(x.V : ℝ)| := by nlinarith
+    nlinarith
+  obtain ⟨v0, w0, e0⟩ := cbrt_init hv hw h0 hC
+  have hE0 : (151 / 100 : ℝ) * (1 / 2 ^ 53) ≤ 1 / 2 ^ 50 := by norm_num
+  obtain ⟨v1, w1, e1⟩ := cbrt_step v0 w0 hv hw hlo' hhi hC (by positivity) hE0 e0 (Or.inr hC54)
+  have hE1 : ((1001 / 1000 : ℝ) * ((151 / 100) * (1 / 2 ^ 53)) ^ 2 + (13 / 2) * (1 / 2 ^ 106)) ≤ 9 * (1 / 2 ^ 106) := by
+    norm_num
+  have e1' : |((cbrtStep (convert.impl_From_f64_for_TwoFloat.from (F64.cbrt x.hi)) x).V : ℝ) - C|
+      ≤ (9 * (1 / 2 ^ 106)) * |C| := le_trans e1 (mul_le_mul_of_nonneg_right hE1 (abs_nonneg C))
+  obtain ⟨v2, w2, e2⟩ := cbrt_step v1 w1 hv hw hlo' hhi hC (by positivity) (by norm_num) e1' (Or.inr hC54)
+  rw [cbrt_eq x hv.1 h0]
+  refine ⟨v2, w2, C, hC, ?_⟩
+  have hE2 : ((1001 / 1000 : ℝ) * (9 * (1 / 2 ^ 106)) ^ 2 + (13 / 2) * (1 / 2 ^ 106)) ≤ 7 / 2 ^ 106 := by
+    norm_num
+  have := le_trans e2 (mul_le_mul_of_nonneg_right hE2 (abs_nonneg C))
+  have hp : (0 : ℝ) < 2 ^ 106 := by positivity
+  rw [show (7 : ℝ) / 2 ^ 106 * |C| = 7 * |C| / 2 ^ 106 by ring, le_div_iff₀ hp] at this
+  linarith
+
+/-- the real-number statement `|R − C| ≤ 7·2^-106·|C|`, `C³ = V·U²`, as a root-free integer inequality on cubes
+(`(1 − 7u²)³·|v| ≤ |r|³ ≤ (1 + 7u²)³·|v|`), together with the sign of the result -/
+theorem cubes_of_real {R V : Int} {C : ℝ} (hC : C ^ 3 = (V : ℝ) * (2 ^ 1074) ^ 2)
+    (hb : 2 ^ 106 * |(R : ℝ) - C| ≤ 7 * |C|) :
+    (2 ^ 106 - 7) ^ 3 * (|V| * (unit : Int) ^ 2) ≤ (2 ^ 106 * |R|) ^ 3 ∧
+    (2 ^ 106 * |R|) ^ 3 ≤ (2 ^ 106 + 7) ^ 3 * (|V| * (unit : Int) ^ 2) ∧
+    (0 < V → 0 < R) ∧ (V < 0 → R < 0) := by
+  have hC3 : |C| ^ 3 = |(V : ℝ)| * (2 ^ 1074) ^ 2 := by
+    rw [← abs_pow, hC, abs_mul, abs_of_pos (by positivity : (0 : ℝ) < (2 ^ 1074) ^ 2)]
+  have t := abs_abs_sub_abs_le_abs_sub (R : ℝ) C
+  obtain ⟨t1, t2⟩ := abs_le.1 t
+  have nC := abs_nonneg C
+  have nR := abs_nonneg (R : ℝ)
+  have l1 : (2 ^ 106 - 7) * |C| ≤ 2 ^ 106 * |(R : ℝ)| := by nlinarith
+  have l2 : 2 ^ 106 * |(R : ℝ)| ≤ (2 ^ 106 + 7) * |C| := by nlinarith
+  have p1 := pow_le_pow_left₀ (mul_nonneg (by norm_num) nC) l1 3
+  have p2 := pow_le_pow_left₀ (mul_nonneg (by positivity) nR) l2 3
+  have e1 : (((2 : ℝ) ^ 106 - 7) * |C|) ^ 3 = (2 ^ 106 - 7) ^ 3 * (|(V : ℝ)| * (2 ^ 1074) ^ 2) := by
+    rw [mul_pow, hC3]
+  have e2 : (((2 : ℝ) ^ 106 + 7) * |C|) ^ 3 = (2 ^ 106 + 7) ^ 3 * (|(V : ℝ)| * (2 ^ 1074) ^ 2) := by
+    rw [mul_pow, hC3]
+  rw [e1] at p1
+  rw [e2] at p2
+  rw [← unit_real] at p1 p2
+  refine ⟨by exact_mod_cast p1, by exact_mod_cast p2, ?_, ?_⟩
+  · intro hV
+    have hVr : (0 : ℝ) < (V : ℝ) := by exact_mod_cast hV
+    have hCpos : 0 < C := by
+      by_contra hc
+      have : C ^ 3 ≤ 0 := by
+        have h3 : C ^ 3 = C * C ^ 2 := by ring
+        rw [h3]; exact mul_nonpos_of_nonpos_of_nonneg (not_lt.1 hc) (sq_nonneg C)
+      rw [hC] at this
+      have : (0 : ℝ) < (V : ℝ) * (2 ^ 1074) ^ 2 := by positivity
+      linarith
+    rw [abs_of_pos hCpos] at hb
+    have := (abs_le.1 (show |(R : ℝ) - C| ≤ (7 / 2 ^ 106) * C by
+      rw [show (7 : ℝ) / 2 ^ 106 * C = 7 * C / 2 ^ 106 by ring, le_div_iff₀ (by positivity)]; linarith)).1
+    have h7 : (7 : ℝ) / 2 ^ 106 * C ≤ (1 / 2) * C := by nlinarith [show (7 : ℝ) / 2 ^ 106 ≤ 1 / 2 by norm_num]
+    have : (0 : ℝ) < (R : ℝ) := by linarith
+    exact_mod_cast this
+  · intro hV
+    have hVr : (V : ℝ) < 0 := by exact_mod_cast hV
+    have hCneg : C < 0 := by
+      by_contra hc
+      have : 0 ≤ C ^ 3 := pow_nonneg (not_lt.1 hc) 3
+      rw [hC] at this
+      have : (V : ℝ) * (2 ^ 1074) ^ 2 < 0 := mul_neg_of_neg_of_pos hVr (by positivity)
+      linarith
+    rw [abs_of_neg hCneg] at hb
+    have := (abs_le.1 (show |(R : ℝ) - C| ≤ (7 / 2 ^ 106) * (-C) by
+      rw [show (7 : ℝ) / 2 ^ 106 * (-C) = 7 * (-C) / 2 ^ 106 by ring, le_div_iff₀ (by positivity)]; linarith)).2
+    have h7 : (7 : ℝ) / 2 ^ 106 * (-C) ≤ (1 / 2) * (-C) := by
+      nlinarith [show (7 : ℝ) / 2 ^ 106 ≤ 1 / 2 by norm_num]
+    have : (R : ℝ) < 0 := by linarith
+    exact_mod_cast this
 
 end CbrtBound
